@@ -12,2201 +12,2006 @@ Definition show_fres (r : fres) : string :=
   end.
 Definition check (rs : list rune) : string := digest (show_fres (format_res rs)).
 Definition full (rs : list rune) : string := show_fres (format_res rs).
-Eval vm_compute in ("<<<M3650>>>" ++ check (runes_of_ascii "  options
-{ 
-ArrayPrefixLenType 
-= u16;
-FixedStringPadFromLeft=true
-;
-JavaPackage  =	""com.example.msg"";
-	GoPackage	=
-
-""msg""
-    ;GoModule=
-	""example.com/msg"" ;
-
-    } MetaData
-Meta 
-{
-    u32 SeqNum	`sequence number` ,
-char[8
-
-    ] Symbol `symbol`  ,
-
-    zchar[  5] ZSym`z symbol`  ,string  Note, Symbol AltSymbol
-	`alias of symbol` , f64
-Price
-	,
-}packet
-Inner{	u8
-a,  i16
-    b
-,
+Eval vm_compute in ("<<<M855>>>" ++ check (runes_of_ascii "root packet crc	{ @calculatedFrom(""1""	) f32 x
+, @calculatedFrom( ""// no comment""
+)//x
+string	chars ,	@calculatedFrom(  ""a\""b""
+) @rightPad ( )
+    @tag(
+    7 )match A as matchKey {[ 42 ]:msg_type""x y"" : lengthOf
+    ""a\\""
+: packetx /// triple
+,[""`tick`"",""x y""
+, ""a\""b"" ,// packet A { u8 x, }
+""x y""
+, 00 ,
+""it's""
+    , 7
+, """"
+    ]: Logon }// a // b
+,	@lengthOf(  falsey )repeat falsey `u8 x,` , u8x
+{ int16
+lengthOf
+    `u8 x,` , f32a// " ++ [128512]%N ++ runes_of_ascii " emoji
+packetx,
+} , lengthOf @lengthOf(
+calculatedFrom ) , @rightPad
+('0')	f32	f32a ,
+//
+// packet A { u8 x, }
+@calculatedFrom( """ ++ [128512]%N ++ runes_of_ascii """)tag ,
+// " ++ [27880; 37322]%N ++ runes_of_ascii "
+//x
+string zchar `// not a comment` ,} MetaData matchKey {
+    }	packet uint8x {
+// a // b
+//x
+repeat lengthOf
+// a // b
+// @lengthOf(
+{u16 u128 //
+,Pad  , } , @tag( 4294967296	)
+@calculatedFrom(	""x y"" ) @tag(	0) char[4294967296 ] options1 @calculatedFrom( ""CRC32"" )	,@rightPad ('\x00') repeat
     string
-c ,
-}
-    packet
-	Inner2 { 
-u8
-a2
-	,char[ 3 ] c2
-	, }	packet
-Logon {	u8
-x, string	user 
-, repeat
-u16	codes
+asx `a\` // " ++ [128512]%N ++ runes_of_ascii " emoji
+, @calculatedFrom(
+""" ++ [128512]%N ++ runes_of_ascii """ )	char[255
+] len
+@calculatedFrom(
+""" ++ [233]%N ++ runes_of_ascii "t" ++ [233]%N ++ runes_of_ascii """ ) ,
+@calculatedFrom( //x
+""{,}"" )
+repeat zchar
+    calculatedFrom, @calculatedFrom( """ ++ [233]%N ++ runes_of_ascii "t" ++ [233]%N ++ runes_of_ascii """
+    )string  o @lengthOf( u) ,uint64 falsey
+    // " ++ [128512]%N ++ runes_of_ascii " emoji
+    @calculatedFrom( ""\" ++ [233]%N ++ runes_of_ascii """ ) , zchar[ 65535 ] stringy @calculatedFrom( ""1""
+), As , }packet BodyLength{  repeat uint32 body , zchar[ 65535 ]
+    //	t
+    Header ,As i8i8 `tab	here`,@calculatedFrom( """ ++ [128512]%N ++ runes_of_ascii """
+    ) @rightPad( // trailing space 
+'0'
+) @tag(65535 )
+    Pad { string
+u128
+, },@tag(  255 )
+    @leftPad() @lengthOf(f32a) repeat o	,repeat i8i8{repeat f32a /// triple
+float`line1
+line2`, repeat char[ 0123456789 ]pack	`tab	here` , // `tick` ""quote"" 'q'
+char[] x ,} ,
+    @calculatedFrom(	"""" )
+@lengthOf(lengthOf
+    ) repeat char[ 65535 ] Foo , pack lengthOf , repeat Pad , }
+packet // " ++ [128512]%N ++ runes_of_ascii " emoji
+u8x {
+    //
+    @tag( // `tick` ""quote"" 'q'
+255 ) repeat
+zchar[ // trailing space 
+4294967296
+]
+pack ,// " ++ [128512]%N ++ runes_of_ascii " emoji
+char[ 0123456789 ] charz// trailing space 
+@calculatedFrom( //x
+""a\""b"" )// packet A { u8 x, }
 ,
-}	packet Logout {u16 
-reason  ,	} packet
+    //
+    @lengthOf( Header
+)
+// c
+//x
+f32a
+    {  u128 @calculatedFrom(
+    """"
+    // " ++ [128512]%N ++ runes_of_ascii " emoji
+    )
+    `line1
+line2` , T @calculatedFrom( ""a\""b""
+)
+, int32	lengthOf @lengthOf(
+    msg_type  ) ,
+Foo@calculatedFrom(
+    ""a\""b""
+) ,
+} , }")).
+Eval vm_compute in ("<<<M390>>>" ++ check (runes_of_ascii "packet
+metadata
+    { zchar[ 10]i64_ `say ""hi""` , repeat // " ++ [27880; 37322]%N ++ runes_of_ascii "
+Header
+// a // b
+// " ++ [128512]%N ++ runes_of_ascii " emoji
+uint8x ,@lengthOf( falsey ) int8
+_x @calculatedFrom( ""x y"" )`{ , }` // c
+,	stringy
+metadata`a\` // " ++ [128512]%N ++ runes_of_ascii " emoji
+, // " ++ [128512]%N ++ runes_of_ascii " emoji
+@lengthOf(
+Packet)
+    i64_
+{match crc  as Header
+{[ 0 , 0123456789  ] : // c
+Foo
+    ,
+    ""abc""
+// trailing space 
+// @lengthOf(
+:pack , } ,match int as charz { 1
+    /// triple
+    : packetx , 7: MetaDataX	, // " ++ [128512]%N ++ runes_of_ascii " emoji
+7
+: a1 007  :zchar, ""CRC32""
+    :
+stringy , [ ""\" ++ [233]%N ++ runes_of_ascii """,""CRC32"" ] : i8i8	}
+//
+//x
+, pack
+    /// triple
+    `doc`
+, tag
+{ _x@calculatedFrom( ""CRC32""
+    )
+    `
+` ,
+repeat asx
+`{ , }` /// triple
+,i32 _x //x
+@calculatedFrom(
+""\n"")  `u8 x,`, }
+, }, f32a @lengthOf( chars // trailing space 
+) , string Packet
+    , @leftPad  (
+    ' ' ) @lengthOf(
+u8x ) // trailing space 
+a1// " ++ [128512]%N ++ runes_of_ascii " emoji
+@calculatedFrom(
+    ""x y"" ) `doc` ,
+options1 , body
+`{ , }` , } MetaData Foo{ uint8 Z9_ `{ , }` , } packet Header
+    { pack	{// trailing space 
+leftPad	{ u128 i64_ , zchar[ 7
+// @lengthOf(
+// `tick` ""quote"" 'q'
+] i64_ @calculatedFrom( ""packet"" ) // packet A { u8 x, }
+`line1
+line2` //x
+, //
+metadata Logon , char[10 // packet A { u8 x, }
+]
+asx @lengthOf( uint8x
+) `it's`
+    ,
+} /// triple
+, } ,@calculatedFrom( ""a\\"") Logon
+@lengthOf(
+    uint8x ) `
+` , int64 msg_type
+    , metadata
+_x
+// @lengthOf(
+/// triple
+, @leftPad  (	)
+    trueish { Header {
+//x
+// `tick` ""quote"" 'q'
+uint8x
+    { char[0123456789]	leftPad	@calculatedFrom(
+""" ++ [233]%N ++ runes_of_ascii "t" ++ [233]%N ++ runes_of_ascii """ )
+    `" ++ [28040; 24687; 31867; 22411]%N ++ runes_of_ascii "`, } ,// " ++ [128512]%N ++ runes_of_ascii " emoji
+char[ // a // b
+1
+    ]
+// c
+// packet A { u8 x, }
+asx @calculatedFrom(  ""it's"" ) , roots	, } , }	, zchar[
+    // " ++ [128512]%N ++ runes_of_ascii " emoji
+    255 ]	Packet , // `tick` ""quote"" 'q'
+repeat i8i8 , repeat
+float64 u8x, @calculatedFrom(""" ++ [233]%N ++ runes_of_ascii "t" ++ [233]%N ++ runes_of_ascii """)
+asx @calculatedFrom( ""a\""b"" ),
+}  MetaData
+    /// triple
+    roots // packet A { u8 x, }
+{}")).
+Eval vm_compute in ("<<<M5>>>" ++ check (runes_of_ascii "root
+packet zchar {
+repeatCount // a // b
+@lengthOf(  asx )	, match
+string_ as o// @lengthOf(
+{ 7 :packetx
+    ,
+    7 : Pad},// packet A { u8 x, }
+zchar[ 65535 ]
+    T
+@calculatedFrom( /// triple
+""" ++ [128512]%N ++ runes_of_ascii """
+)
+    , tag @lengthOf( // " ++ [27880; 37322]%N ++ runes_of_ascii "
+u ) `crlf
+line`,
+    @calculatedFrom(
+    // " ++ [128512]%N ++ runes_of_ascii " emoji
+    """" ) _x	@calculatedFrom(// @lengthOf(
+""a	b"" )
+`// not a comment` ,match Z9_ as float { 0123456789 : calculatedFrom, ""{,}"":u //	t
+} , @leftPad( ) @tag( 255	) @lengthOf(i8i8
+    ) match
+tag as
+    trueish { 4294967296:	uint8x
+    ,[ //x
+65535 ] : u8x ,	10 : i64_,
+""""
+    :metadata
+    } , int64 T , } root packet len { @tag(	0) Logon ,
+@tag(255) repeat u64 packetx `it's`
+    , @tag(
+    4294967296 )
+zchar[007 ]repeatCount `a\` , char[ 4294967296
+]
+// " ++ [128512]%N ++ runes_of_ascii " emoji
+// packet A { u8 x, }
+asx @calculatedFrom(
+""it's"" ), }	root packet asx {	uint16 options1@lengthOf(
+    matchKey ) `it's`	, }	root //
+packet
+Logon{ @lengthOf( asx) @calculatedFrom(  ""packet""
+)	Z9_ @calculatedFrom(// " ++ [128512]%N ++ runes_of_ascii " emoji
+""" ++ [28040; 24687]%N ++ runes_of_ascii """)
+    ,
+@tag(	007
+    /// triple
+    )
+zchar[0123456789 ] i64_ ,
+msg_type`line1
+line2` , repeat zchar[
+007 ]Pad
+`
+`	, falsey {
+    chars lengthOf ``
+    ,	match Header as lengthOf
+    {
+""" ++ [233]%N ++ runes_of_ascii "t" ++ [233]%N ++ runes_of_ascii """	: falsey 42:
+uint8x , [ 007
+,""abc""
+    ,
+// c
+// a // b
+""abc"" ,""a\\""  ,
+65535 // c
+,""a\""b"" ,
+42, ""{,}"" ]:charz } , int64 //x
+Foo // c
+, Z9_@lengthOf( int )`it's`
+, }
+,
+    @rightPad
+    ( ) // trailing space 
+string As @calculatedFrom(""" ++ [28040; 24687]%N ++ runes_of_ascii """ ) ,
+    // c
+    match matchKey as repeatCount{
+4294967296 :msg_type	, """ ++ [28040; 24687]%N ++ runes_of_ascii """ : zchar 3  : u8x , """":	asx
+// trailing space 
+// `tick` ""quote"" 'q'
+, } ,}
+")).
+Eval vm_compute in ("<<<M4452>>>" ++ check (runes_of_ascii "// " ++ [27880; 37322]%N ++ runes_of_ascii "
+		packet a1
+// " ++ [27880; 37322]%N ++ runes_of_ascii "
+  	{ @calculatedFrom(
 
-Empty
+""" ++ [233]%N ++ runes_of_ascii "t" ++ [233]%N ++ runes_of_ascii """)Logon{ options1
 
-{  }
+falsey
 
-root	packet
-    Msg
+    `// not a comment` , Z9_
 
-    {u8
-    su8
-, uint8  luint8
+    @calculatedFrom( ""packet""
+)	,  int8 
+        // trailing space 
+Packet
+`two words` 
+// " ++ [128512]%N ++ runes_of_ascii " emoji
 
-    , u16
-    su16
-	,
+  // a // b
+  , 
+},
 
-uint16	luint16
+@tag(
+007	)char[]chars
+@lengthOf( Packet
+    )`crlf
+line` 
+,
 
-,  u32
+match 
+msg_type
+as 
+Header
+	{""" ++ [28040; 24687]%N ++ runes_of_ascii """
 
-    su32
+: _x 	 //x
+    }
+,repeat 
+    //
+      u128
 
-    , uint32 luint32
-,	u64
-    su64,
+{ 
+Logon@calculatedFrom( 
+""it's"" 
+)  `{ , }`
 
-uint64
-	luint64
+    ,
+
+} 
+// " ++ [128512]%N ++ runes_of_ascii " emoji
+  // c
+    ,
+int64 calculatedFrom 	 // c
+		, 
+repeat
+
+zchar[
+
+    0 
+]  a1
+	`say ""hi""`
+    ,match options1 as repeatCount
+    {	[
+    //x
+  ""1""	,""`tick`""
 
 , 
-i8	si8
-
-,
-	int8
-    lint8,  i16
-
-si16
-
-,  int16 
-lint16 , 
-i32
-
-    si32
-	, 
-int32
-lint32
-
-,i64 si64
-
-    , int64
-lint64
-,
-f32
-	sf32
-
-    ,
-float32	lfloat32
-,
-
-f64
-    sf64
-    , 
-float64
-
-    lfloat64	, char[
-6	]
-fsplain ,
-
-@leftPad
-    (
-    '0'
-	)
-    char[ 4]fs0
-,@rightPad
-(
-'0'
-
-) char[ 5	] fs1, @leftPad (' ' ) char[
-6
-
-    ]
-	fs2
-
-    ,	@rightPad
-	(
-	' '
-	)char[
-7
-
-] fs3 ,  @leftPad
-(
-    '\x00'
-)  char[
-
-    8
-]
-
-    fs4
-,
-    @rightPad(	'\x00')
-char[9 ]  fs5	,
-    @leftPad
-(
-)
-char[ 
-10 ] 
-fs6  , @rightPad( )
-char[ 11 ]
-
-    fs7 ,zchar[
-7
-]
-
-    fz 
-, @leftPad
-	( 
-'0'
-) zchar[
-
-3 ]  fzl0,  string s1`doc`	,  char[]
-	s2,Inner  ,Sub
-{
-u8 q
-,string w
-
-,
-Deep 
-{u16
-z
-
-,
-	repeat 
-i32 zs
-	,
-
-    }
-,} ,
-	repeat
-
-u8 ru8
-,
-	repeat
-    u16 
-ru16 
-,
-    repeat	u32 ru32
-
-    ,
-
-repeat
-
-u64
-	ru64 ,
-
-    repeat
-    i8
-
-    ri8
-
-    ,
-	repeat	i16 ri16
-	,
-    repeat 
-i32
-
-    ri32
-
-    ,repeat i64 ri64	,
-	repeat
-	f32 rf32, repeat
-	f64 rf64 ,
-
-    repeat
-string  rstr	, repeat  char[] 
-rstr2,repeat
-
-    char[ 3]
-
-    rfs
-
-,
-repeat zchar[ 3
-    ]
-    rfz
-,	repeat  Inner2
-,
-    repeat
-
-Grp {
-	u8
-k
-,
-char[
-2
-]
-
-v
-    ,
-    } ,  SeqNum,
-	SeqNum seq2  ,
-repeat
-SeqNum
-    seqs  , Symbol ,
-
-AltSymbol 
-alt , ZSym ,
-Note, repeat
-
-Symbol syms, 
-Price  px,u16 
-MsgType
-
-,
-u32	BodyLen @lengthOf(  Body
-	)
-, match  MsgType  as	Body {1 :  Logon	, [ 
-2, 3] 
-:	Logout , 
-7
-	: 
-Logon
-
-    ,
-	9	: Empty, },	u32
-
-Checksum @calculatedFrom(
-
-    ""CRC32""  )
-
-, }
-")).
-Eval vm_compute in ("<<<M3803>>>" ++ check (runes_of_ascii "
-MetaData
-Logon
-{string_
-
-    MetaDataX	`
-`
-	, } root
-	packet  Pad {
-    asx @lengthOf( 
-BodyLength
-) , }packet
-
-    Pad {
-    @calculatedFrom(	""a	b""  )zchar[ 7
-	]x`a\`
-
-    , @lengthOf( msg_type
-// " ++ [27880; 37322]%N ++ runes_of_ascii "
-		// trailing space 
-      )int32
-    Logon  @lengthOf(	u128 	 //	t
-	)	`two words`
-	,	@lengthOf(
-
-    asx ) 
-match
-
-    o
-
-    as
-asx{ 
-1
-
-: crc,
-
-    00
-	: f32a,
-} , char[1 ]leftPad @lengthOf(	string_ 
-) `
-`
-,	f32 
-	    // a // b
-
-trueish @calculatedFrom(//x
-  """" 
-) 
-`` 
-        // " ++ [128512]%N ++ runes_of_ascii " emoji
-  	,
-
-    As
-	,
-
-    x_y_z
-{match Packet as 
-int 
-{
-	007 :
-x  ,  // packet A { u8 x, }
-""" ++ [28040; 24687]%N ++ runes_of_ascii """ :options1
-
-    ,
-
-    ""packet"" :  // packet A { u8 x, }
-  repeatCount
-    ""\n""
-: x
-
-    ,
-}
-//
-	  , char[]
-    i8i8  @lengthOf(  x_y_z  )  `two words`
-
-,  match
-    crc  as
-x_y_z  {
-
-    ""CRC32""  :
-    Z9_, }
-
-    ,
-    packetx
-,
-	}
-    ,
-
-    repeat
-	char[ 0 
-    // packet A { u8 x, }
-    // `tick` ""quote"" 'q'
-
-]
-
-    asx ,@calculatedFrom(""1"")
-char[ 
-00  ]float ,
-
-repeat
-i32	msg_type
-	, }
-    packet 
-x_y_z  {// `tick` ""quote"" 'q'
-  @calculatedFrom(  ""a\\"")
-    @calculatedFrom(""packet""
-)
-	uint8x
-@calculatedFrom( """" )  ,
-	    //	t
-		@lengthOf( 
-x) u8x
-	x ,
-
-    @calculatedFrom( 
-""a	b"")
-
-    int16 
-pack 
-
-// packet A { u8 x, }
-
-  //x
-	  , match 
-Pad as
-T 
-	    //	t
-		// @lengthOf(
-{[
-	00] :
-	leftPad  ,
-
-""CRC32""
-:
-    body
-
-    ,	//x
-3
-	: zchar 1
-	: u8x 7  :
-    options1, 4294967296: falsey
-	/// triple
-  , } ,
-    } packet T
-	{
-
-zchar[65535 
-] //x
-  roots , int x
-`crlf
-line` , @lengthOf(//	t
-	int )
-	charz {
-
-i64_
-    `" ++ [28040; 24687; 31867; 22411]%N ++ runes_of_ascii "` ,zchar[ 
-  // `tick` ""quote"" 'q'
-  42 ] len
-// @lengthOf(
-
-@calculatedFrom(	// " ++ [128512]%N ++ runes_of_ascii " emoji
-		""" ++ [233]%N ++ runes_of_ascii "t" ++ [233]%N ++ runes_of_ascii """ ) ,
-
-    repeat i8 o
-, 	 // " ++ [27880; 37322]%N ++ runes_of_ascii "
-  char[
-0
-
-    ] 	 // a // b
-  	options1
-`doc` 
-,
-
-}	,@lengthOf(roots) 
-string
-
-    Header	,}
-")).
-Eval vm_compute in ("<<<M4096>>>" ++ check (runes_of_ascii "  options{ 
-metadata
-=	char[
-4294967296 ] 
-;
-    } packet f32a{match 
-Z9_	as
-	repeatCount	{  3 :crc , ""{,}"":
-
-    pack, 
-} ,char[]  calculatedFrom
-@lengthOf( 	 // @lengthOf(
-MetaDataX 
-) ,@calculatedFrom(
-""`tick`""	)  // " ++ [128512]%N ++ runes_of_ascii " emoji
-	x_y_z
-	// " ++ [27880; 37322]%N ++ runes_of_ascii "
-	, i8 leftPad  ,i8
-
-uint8x @calculatedFrom(
-	""packet""	)// trailing space 
-		`// not a comment`
-
-    ,
-    @calculatedFrom( """"
-
-    )
-@tag(
-	007
-	) char[
-
-    10	]
-
-T @calculatedFrom(""""  //
-) 
-,u8x
-	{
-
-    zchar@lengthOf( // packet A { u8 x, }
-
-u
-    )
-    `{ , }` 
-    // c
-  	, }
-    ,  float
-    `say ""hi""`  ,
-    i64
-
-packetx ,  @lengthOf(BodyLength 
-)string
-
-    calculatedFrom  ,
-	} packet MetaDataX  // " ++ [27880; 37322]%N ++ runes_of_ascii "
-		{
-    @calculatedFrom(
-
-    ""{,}""
-	)  match  /// triple
-
-metadata as 	 //
-
-_x
-    {
-""1""
-: // c
-uint8x
-,
-""{,}""
-:
-
-falsey} 
-,
-
-    }
-
-packet 	 // " ++ [27880; 37322]%N ++ runes_of_ascii "
-  Logon
-
-    {
-
-    o @lengthOf( i8i8
-    )	,
-	@rightPad('0' 
-)
-    int64 
-msg_type
-
-,  char  calculatedFrom
-
-    ,
-	@tag(
-    255)
-    i8i8 @calculatedFrom(
-""x y""  )  ,
-i8i8 // @lengthOf(
-@calculatedFrom(""\" ++ [233]%N ++ runes_of_ascii """ )
-
-    , @tag( 0123456789
-	)
-
-    lengthOf ,
-@lengthOf(// `tick` ""quote"" 'q'
-  o  )
-
-@tag(	10
-) match
-    options1 as
-
-    u {
-
-""1"":
-Pad, // c
-
-""\" ++ [233]%N ++ runes_of_ascii """
-
-: metadata  ,  // @lengthOf(
-  } ,
-@tag(	// " ++ [128512]%N ++ runes_of_ascii " emoji
-  1
-
-    )@tag( 65535 
-)
-
-@lengthOf(  Packet)repeat
-T,
-@tag( 4294967296) match x_y_z 
-as 
-uint8x {
-""{,}""
-	:
-uint8x 7	: metadata
-    , 7
-    :
-	i64_[
-""" ++ [233]%N ++ runes_of_ascii "t" ++ [233]%N ++ runes_of_ascii """	,  ""CRC32""	, 	 // trailing space 
-      ""packet"", 00  ,65535
-
-,""x y""  ,  // " ++ [27880; 37322]%N ++ runes_of_ascii "
-""packet""  //x
-  ]:
-	metadata,  // packet A { u8 x, }
-""packet""
-:uint8x ,	}
-	,repeat	x
-, }")).
-Eval vm_compute in ("<<<M1361>>>" ++ check (runes_of_ascii "options { u= char[] }	MetaData u// " ++ [27880; 37322]%N ++ runes_of_ascii "
-{  char[
-0 ] Logon , char[]x_y_z , string string_ // @lengthOf(
-,u64 uint8x ,
-}
-    packet body
-    {char[00 ] rootA	, T {stringy// packet A { u8 x, }
-{ repeat
-char[]
-//
-//x
-metadata `" ++ [28040; 24687; 31867; 22411]%N ++ runes_of_ascii "`
-    ,
-match i8i8// packet A { u8 x, }
-as
-BodyLength {
-0:
-BodyLength
-    //	t
-    ,
-},// `tick` ""quote"" 'q'
-packetx
-@calculatedFrom( ""CRC32"" ) `
-` , }, int32 falsey`a\`,
-    } , //	t
-match // a // b
-Z9_ as calculatedFrom { 255
-//	t
-//	t
-: As // " ++ [27880; 37322]%N ++ runes_of_ascii "
-},
-    // " ++ [27880; 37322]%N ++ runes_of_ascii "
-    Logon `doc` , } root  packet
-stringy
-    {match x
-as T {
-    65535 : Header
-,[ ""a\""b""
-, ""1"" ]// " ++ [128512]%N ++ runes_of_ascii " emoji
-:Z9_ ,
-//
-//
-}
-,char[]/// triple
-zchar @lengthOf( lengthOf )
-//x
-// @lengthOf(
-`two words`
-,options1 { repeat int
-Header `` , i8
-    Logon @calculatedFrom( ""a	b""
-    )  `" ++ [28040; 24687; 31867; 22411]%N ++ runes_of_ascii "` , // @lengthOf(
-} , uint32 roots `// not a comment`
-,
-len
-//
-//
-{ match
-// `tick` ""quote"" 'q'
-//x
-options1
-    as
-//x
-// c
-o
-{65535 :  f32a , ""CRC32"" :
-tag ,// @lengthOf(
-4294967296
-:
-u8x
-    , 0 : metadata
-,
-""a	b"" : string_}
-    , char[ 65535 ]
-/// triple
-// " ++ [128512]%N ++ runes_of_ascii " emoji
-crc  @calculatedFrom(""{,}"" ) `crlf
-line`, Pad@lengthOf(
-leftPad	) ,uint8
-Z9_ `u8 x,`
-, }	, msg_type@calculatedFrom(
-"""")
-,
-// trailing space 
-// `tick` ""quote"" 'q'
-repeat u8x	,	match	metadata
-as BodyLength{
-    ""packet""//
-:f32a 7 : int /// triple
-0123456789 : x  , // `tick` ""quote"" 'q'
-} , uint16 i64_ , } packet
-string_{
-string_ ,
-/// triple
-//
-}
-")).
-Eval vm_compute in ("<<<M3840>>>" ++ check (runes_of_ascii "packet repeatCount {
-    i64 falsey,
-    char[65535] calculatedFrom @lengthOf(calculatedFrom),
-    int32 repeatCount,
-    @tag(4294967296)
-    repeat matchKey {
-        repeat int64 rootA,
-        match Packet as BodyLength {
-            [10] : repeatCount,
-            ""a\\"" : msg_type,
-            [00, ""CRC32""] : calculatedFrom,
-            7 : lengthOf,
-            // " ++ [128512]%N ++ runes_of_ascii " emoji
-            42 : Header,
-            [
-                65535, 0, 65535, 255, ""it's"",
-                ""\n"", ""`tick`"", ""{,}""
-            ] : T,
-        },
-    },
-    @calculatedFrom(""{,}"")
-    match asx as metadata {
-        3 : Z9_,
-        ""`tick`"" : string_,
-    },
-    @rightPad('0')
-    int8 u128,
-    @tag(3)
-    repeat i8 x_y_z `it's`,
-    @lengthOf(chars)
-    @calculatedFrom(""" ++ [28040; 24687]%N ++ runes_of_ascii """)
-    string float,
-}
-
-packet zchar {
-    match uint8x as f32a {
-        [""`tick`"", ""CRC32""] : repeatCount,
-        [
-            00, 255, 255, 1, 7,
-            007, 7, ""x y""
-        ] : tag,
-        ""{,}"" : leftPad,
-        007 : len,
-    },
-    @calculatedFrom(""CRC32"")
-    @lengthOf(x)
-    @calculatedFrom(""\" ++ [233]%N ++ runes_of_ascii """)
-    char[65535] string_,
-}
-
-options {
-}
-
-MetaData u128 {
-    trueish tag,
-    packetx i8i8,
-    f64 x_y_z,
-    trueish u128,
-    x Header `say ""hi""`,
-    zchar[0] A,
-}
-
-MetaData i64_ {
-}")).
-Eval vm_compute in ("<<<M281>>>" ++ check (runes_of_ascii "
-packet leftPad { // packet A { u8 x, }
-@leftPad ( ' '
-)
-repeat
-    x
-`" ++ [233]%N ++ runes_of_ascii "` ,
-repeat
-    pack ,
-// a // b
-// a // b
-uint32  A , // @lengthOf(
-@tag(10  )@leftPad
-    ( )
-    @calculatedFrom( ""a	b"" ) u32 stringy @lengthOf( lengthOf ) , Foo`line1
-line2` , crc `u8 x,`  ,// @lengthOf(
-} options {//
-x = float64
-    // trailing space 
-    ; u8x = //x
-""" ++ [128512]%N ++ runes_of_ascii """ ; pack =
-// `tick` ""quote"" 'q'
-// trailing space 
-' ';
-    // c
-    falsey
-= ""a\""b"" } packet As
-{repeat repeatCount u8x `doc`
-    // packet A { u8 x, }
-    , @leftPad ( '0' ) @calculatedFrom(""\" ++ [233]%N ++ runes_of_ascii """
-    )match asx
-as crc//x
-{ 4294967296
-    //	t
-    :
-    u8x
-    , ""\n"" :u128
-    , 0:asx
-    [
-    255
-    // trailing space 
-    ,""x y""	] :
-    Logon ,0123456789 : A , 255	:i64_ , }
-,
-    metadata @lengthOf( u8x
-)  , repeat crc
-{	uint32
-Packet	, } /// triple
-, @calculatedFrom(""" ++ [128512]%N ++ runes_of_ascii """ )T u128  `{ , }` ,repeat i32	msg_type , @lengthOf(// packet A { u8 x, }
-T	)int	,float {
-// @lengthOf(
-// `tick` ""quote"" 'q'
-match trueish	as leftPad
-    /// triple
-    {
-[ 0  ,	""" ++ [28040; 24687]%N ++ runes_of_ascii """  ]:
-f32a, }  , uint32 i8i8,Packet{	char[ 65535 ] o
-    // trailing space 
-    @calculatedFrom( ""it's""  ) , }, // a // b
-} , uint8 i8i8 `say ""hi""`, } /// triple
-packet
-BodyLength{ }
-")).
-Eval vm_compute in ("<<<M1170>>>" ++ check (runes_of_ascii "
-MetaData T
-{ leftPad msg_type, float Foo `doc`
-,
-uint64 charz `two words` ,
-    crc Pad `" ++ [28040; 24687; 31867; 22411]%N ++ runes_of_ascii "` ,  } root packet zchar
-{
-    @tag(  0123456789
-)
-    zchar[
-    42  ]
-lengthOf `" ++ [233]%N ++ runes_of_ascii "`
-    ,
-@tag(  0123456789)
-i64_
-i8i8	`say ""hi""`
-, Header
-    , @lengthOf(i64_
-)uint16 T
-// " ++ [128512]%N ++ runes_of_ascii " emoji
-// c
-@calculatedFrom(
-    ""x y"" ) , @lengthOf(/// triple
-u)
-    // a // b
-    As {int64 // `tick` ""quote"" 'q'
-options1
-@lengthOf( leftPad
-) `u8 x,` ,char[1	]
-falsey @lengthOf( Pad ) `u8 x,`
-    ,  char[]
-charz
-@lengthOf( Packet // c
-), repeat
-//x
-// " ++ [128512]%N ++ runes_of_ascii " emoji
-zchar { zchar[00
-    ]chars ,
-    msg_type @lengthOf(u128  )
-, } // " ++ [27880; 37322]%N ++ runes_of_ascii "
-,} , @leftPad ( '\x00' ) Foo @lengthOf(
-    Logon)
-, @lengthOf(Packet
-) repeat int {
-// @lengthOf(
-// trailing space 
-repeat char zchar , repeat
-string	stringy , string
-matchKey @calculatedFrom(""a	b"" ) `u8 x,`, }, match Logon as calculatedFrom { [ 42 ]
-:
-    x
-,""`tick`""
-:
-    x, 65535
-: Packet , },
-    char[ 7 ]trueish ``,
-match roots
-as
-    float { 007	: u8x// packet A { u8 x, }
-""\" ++ [233]%N ++ runes_of_ascii """ :MetaDataX // " ++ [27880; 37322]%N ++ runes_of_ascii "
-, //x
-[ 255 , ""{,}"",
-    """" , 255 ]// c
-:
-x_y_z , ""// no comment"" : Header // " ++ [27880; 37322]%N ++ runes_of_ascii "
-,} // " ++ [128512]%N ++ runes_of_ascii " emoji
-, }")).
-Eval vm_compute in ("<<<M4227>>>" ++ check (runes_of_ascii "
-options
-    { }
-
-    packet 
-    //	t
-  falsey/// triple
-
-{
-
-i64	calculatedFrom@calculatedFrom(
-        //
-    ""a\\"")
-`it's`  ,
-char[  00 ]  falsey
-,
-	@calculatedFrom( ""1""
-	)
-@calculatedFrom(
-""{,}"" 
-) i32  float 
-,
-	@tag(
-3 	 //
-  )
-	@calculatedFrom(
-
-""CRC32""
-
-)int64  options1@lengthOf(
-    roots)
-`two words` , @calculatedFrom( 
-""a\\""
-)
-
-repeat trueish { repeat
-charz,
-trueish	// trailing space 
-tag	//x
-	`two words` ,repeat  u64
-Logon `" ++ [28040; 24687; 31867; 22411]%N ++ runes_of_ascii "` , }	, @leftPad  ( 
-//x
-  	'0'
-    )	// " ++ [128512]%N ++ runes_of_ascii " emoji
-
-@rightPad(
-
+	//
     // " ++ [128512]%N ++ runes_of_ascii " emoji
-  //
+      10
 
-' '  ) 
-//	t
-      //
-    	u
-    roots
-    ,repeat
-
-A {	i32  int@lengthOf(
-	zchar) 
-`" ++ [233]%N ++ runes_of_ascii "`
-	,
-} 	 //	t
-	,u64 A ,@tag(  10
-
-)
-char[]
-	u8x,zchar[  10  ]
-pack
-    //
-	// " ++ [27880; 37322]%N ++ runes_of_ascii "
-	  @calculatedFrom( ""1""
-)	`say ""hi""`	,
-}
-packet Z9_  //	t
-  	{ 	 // " ++ [27880; 37322]%N ++ runes_of_ascii "
-@leftPad
-( '0'
-	)repeat 
-  // a // b
-    	// @lengthOf(
-	As charz  ,  body	@calculatedFrom(	""it's"")
-`crlf
-line`	, 
-
-    // " ++ [27880; 37322]%N ++ runes_of_ascii "
-@leftPad ( 
-'0'
-) zchar[
-4294967296
-    ] A
-
-@calculatedFrom(
-""packet""  
-  // trailing space 
-	  )  `" ++ [233]%N ++ runes_of_ascii "`  ,  repeat
-body  Header `" ++ [233]%N ++ runes_of_ascii "`, }
-
-")).
-Eval vm_compute in ("<<<M1258>>>" ++ check (runes_of_ascii "options { lengthOf
-    =
-""" ++ [128512]%N ++ runes_of_ascii """  Pad= ""it's""
-    Packet
-=' '
-;} packet
-stringy {@calculatedFrom( ""a\\"" ) stringy asx
-    //x
-    `doc` , f32a  , options1 { f64 BodyLength @lengthOf(i64_ )  , matchKey
-    // `tick` ""quote"" 'q'
-    roots,  repeat i8 chars ,
-    /// triple
-    } ,
-charz
-    string_ ,
-    i8  repeatCount `crlf
-line`
-, }
-    packet uint8x
-    {@tag( 00 // " ++ [128512]%N ++ runes_of_ascii " emoji
-)
-uint64	MetaDataX  ,@tag( 00
-) char uint8x @lengthOf(
-    uint8x
-    ) , roots @lengthOf( stringy  ) `
-`
-, @rightPad ()
-    zchar[ 0123456789
-    //
-    ] T//x
-`" ++ [233]%N ++ runes_of_ascii "`	, @tag(42
-) repeat i64
-    repeatCount // `tick` ""quote"" 'q'
-, falsey `doc` , char[65535]
-falsey
-`say ""hi""` , x_y_z
-    int, @lengthOf(  MetaDataX
-) match
-    Logon
-as
-    leftPad {""abc""	:
-zchar , 255
-: A	,},  }  MetaData falsey{
-    }
-    packet BodyLength
-{ Pad asx , @calculatedFrom(
-""a	b""// " ++ [27880; 37322]%N ++ runes_of_ascii "
-) string packetx
-//
-// packet A { u8 x, }
-`it's`, float64 uint8x
-`two words`
+    , 
+""\" ++ [233]%N ++ runes_of_ascii """
     ,
-    zchar[ 007
-]	uint8x @calculatedFrom(
-    ""a\\"" //x
-)
-    `" ++ [28040; 24687; 31867; 22411]%N ++ runes_of_ascii "` ,}")).
-Eval vm_compute in ("<<<M356>>>" ++ check (runes_of_ascii "packet
-Header { trueish @calculatedFrom(
-""a	b"")
-,
-    Header@calculatedFrom(
-    ""a\\"" //
-)
-,//	t
-@calculatedFrom(  ""a\\"" )/// triple
-i16	body
-@lengthOf( f32a  ) , // packet A { u8 x, }
-match // packet A { u8 x, }
-stringy as _x{ ""`tick`""
-// trailing space 
-//
-: string_ ,42:u8x , ""\n""
-    :
-    repeatCount, ""a\\"" : options1 ,	[ 4294967296 , ""{,}""
-/// triple
-//x
-,
-    4294967296 ,  """ ++ [28040; 24687]%N ++ runes_of_ascii """ , 3//	t
-,
-""abc"" ]
+0123456789 , 
+""a\""b"" ]
+
 :
-    //	t
-    u8x , } , zchar[0123456789
-    ] MetaDataX,@calculatedFrom(
-    ""x y"" //	t
-) @lengthOf( A )	zchar[ //x
-00 ] a1 , match
-// " ++ [128512]%N ++ runes_of_ascii " emoji
-// `tick` ""quote"" 'q'
-options1 as calculatedFrom // packet A { u8 x, }
+    pack ,  // @lengthOf(
+    	0123456789 
+    // " ++ [128512]%N ++ runes_of_ascii " emoji
+
+	: 
+    // packet A { u8 x, }
+Logon 
+,255	:x}	,
+@calculatedFrom(
+	""abc"" )
+@lengthOf(  
+      // packet A { u8 x, }
+
+	// " ++ [128512]%N ++ runes_of_ascii " emoji
+      x
+)	repeat Pad
+
+{ u8x  {	uint8
+
+    T
+@lengthOf(
+
+float) , 
+match
+Header  // `tick` ""quote"" 'q'
+
+as  // a // b
+	trueish	{ ""a	b""	:
+	body //	t
+
+  ,	}
+
+,	int8	MetaDataX
+
+@calculatedFrom( ""a	b""	)
+	,
+
+i8i8
+Pad
+	`" ++ [28040; 24687; 31867; 22411]%N ++ runes_of_ascii "`  , } 
+,
+repeat
+
+i8 
+	//
+  A,// trailing space 
+
+} , uint32
+
+x@lengthOf(
+
+Logon 
+) /// triple
+	  `two words` , }
+packet trueish
 {
-    [ ""// no comment""
-    // " ++ [27880; 37322]%N ++ runes_of_ascii "
-    ,  ""abc"" , 65535,	""CRC32""
-, 0
-, ""CRC32"" ]
-: uint8x
-    , ""// no comment"" :
-// " ++ [128512]%N ++ runes_of_ascii " emoji
-// trailing space 
-chars	,	[ """ ++ [233]%N ++ runes_of_ascii "t" ++ [233]%N ++ runes_of_ascii """ , ""a	b"" ]
-    :
-    pack , 10 :	tag ,}  , @tag( 42 )repeat
-    // trailing space 
-    len,
-    @lengthOf( u )char[] f32a
-, // packet A { u8 x, }
-}
+	} 
+MetaData
+    // @lengthOf(
+  msg_type	{	}  packet
+i8i8
+
+    {
+@tag( 
+007	) 
+	//x
+
+	zchar[ 
+10
+]	/// triple
+  msg_type 
+,
+    }
 ")).
-Eval vm_compute in ("<<<M4054>>>" ++ check (runes_of_ascii "options {
-    LittleEndian = false;
-    FixedStringPadFromLeft = false;
+Eval vm_compute in ("<<<M1376>>>" ++ check (runes_of_ascii "packet i64_{
+char
+i64_ @calculatedFrom(
+""\n"")
+    ,// c
+@tag( 1 )MetaDataX {
+    uint32 options1 @calculatedFrom( ""a	b""),repeat
+    zchar `" ++ [28040; 24687; 31867; 22411]%N ++ runes_of_ascii "` ,
+    body @calculatedFrom(""x y"" )	`doc`	,
+    zchar[ 10
+// a // b
+// trailing space 
+]
+string_ @calculatedFrom( // trailing space 
+""1""
+    ) `doc`,	} , T
+    ,
+    @calculatedFrom( ""CRC32"" ) matchKey {	_x@lengthOf(u8x )`" ++ [28040; 24687; 31867; 22411]%N ++ runes_of_ascii "` , }
+, } options{float
+=
+char[00 ] ;
+    string_ = // @lengthOf(
+i16
+; //x
+} root  packet rootA {  metadata {
+    float32 pack
+    , repeat	i64 string_	, i16 body `u8 x,`, } ,@calculatedFrom(""CRC32""
+) repeat calculatedFrom{ repeat char[ 00  ] MetaDataX , }
+    , @tag(	65535
+)
+match falsey as
+    lengthOf {
+    7 : // c
+leftPad 1	:o
+    ""packet""
+:// " ++ [27880; 37322]%N ++ runes_of_ascii "
+asx ,// packet A { u8 x, }
+0123456789 : pack , [ 0123456789 , ""\n"" , ""abc"" , 00
+,""x y"" // " ++ [128512]%N ++ runes_of_ascii " emoji
+, 10
+]	: f32a , 42 :x ,} ,
+    lengthOf @lengthOf( float  )
+    //
+    ,
+// c
+//
+match _x
+as x  {
+    10 :options1	, ""packet"": chars
+//
+// `tick` ""quote"" 'q'
+, 42 :
+    o ,""1"":
+    // " ++ [128512]%N ++ runes_of_ascii " emoji
+    msg_type
+    [ ""a	b"" , ""\" ++ [233]%N ++ runes_of_ascii """ ,
+255,  ""it's"", 10 ] : // " ++ [27880; 37322]%N ++ runes_of_ascii "
+Pad
+,} , @calculatedFrom( ""\n"" )
+    @leftPad () @lengthOf( x ) zchar[00
+]
+    Header,
+a1
+    // a // b
+    {repeat f32 chars , float64 Foo ,
+    }, //	t
+}
+//x
+")).
+Eval vm_compute in ("<<<M3619>>>" ++ check (runes_of_ascii "options {
+    StringPrefixLenType = u16;
+    ArrayPrefixLenType = u8;
+    FixedStringPadFromLeft = true;
     FixedStringPadChar = ' ';
 }
-
-packet Fill {
-    uint16 Qty,
-    uint64 clOrdID,
-    repeat i64 Flags,
-}
-
-packet Ack {
-    zchar[7] clOrdID,
-    u64 lastPx,
-    char[] Note,
-    repeat Fill,
-    int32 count,
-}
-
 packet Quote {
-    u8 venue,
-    InRef40 {
-        char[] Qty,
-    },
-    zchar[5] Flags,
-    @rightPad('\x00')
-    char[12] msgKind,
+    int64 OrderId,
+    char[] Ref,
+    @leftPad('0') char[5] price,
 }
-
-packet Logout {
-    InSym79 {
-        int32 Qty,
-        Fill,
-        char[3] x,
-        repeat InNote29 {
-            i16 price,
-            Ack,
-            f64 x,
-            zchar[8] count,
+packet Heartbeat {
+    zchar[3] venue,
+    string Flags,
+}
+packet Trade {
+    repeat InTag787 {
+        i32 venue,
+        char[5] sym,
+        repeat InPx98 {
+            char[11] Qty,
+            Heartbeat,
+            char[] price,
+            u32 x,
+            float64 count,
+            repeat Quote,
         },
+        zchar[7] Note,
+        repeat char[1] Tail,
     },
+    repeat char[2] seqNo,
+    InTail55 {
+        repeat Quote,
+        string msgKind,
+        InPx18 {
+            char[] count,
+            repeat Quote,
+            uint16 Qty,
+        },
+        char[4] seqNo,
+        repeat Heartbeat,
+        repeat string sym,
+    },
+    repeat Quote,
+    Heartbeat,
+    @leftPad(' ') char[10] OrderId,
+}
+root packet Fill {
+    Heartbeat,
+    uint32 count,
+    u8 OrderId,
+    match OrderId as Body {
+        96 : Quote,
+        195 : Trade,
+        187 : Heartbeat,
+    },
+    u32 venue @calculatedFrom(""CRC32""),
+}
+")).
+Eval vm_compute in ("<<<M3707>>>" ++ check (runes_of_ascii "packet
+rootA
+
+{
+    metadata {int32  body
+    `doc`
+, repeat calculatedFrom
+	u8x
+
+,
+u32 float
+	,
 }
 
-root packet Logon {
-    zchar[1] sym,
-    u32 count,
-    u16 tag7 @lengthOf(Body),
-    match count as Body {
-        [122, 152] : Ack,
-        118 : Logout,
-        61 : Quote,
-        161 : Fill,
-    },
-    u32 Acct @calculatedFrom(""CRC32""),
-}")).
-Eval vm_compute in ("<<<M1053>>>" ++ check (runes_of_ascii "packet
-    repeatCount
-    {	match	float as u { // trailing space 
-""" ++ [128512]%N ++ runes_of_ascii """ :	i64_ , // trailing space 
-}
-    , repeat Z9_
-    {string metadata `u8 x,` , }	,
-u8 lengthOf ,
-repeat float { zchar[ 255 // `tick` ""quote"" 'q'
-]
-    matchKey@lengthOf( u8x ) , uint8 Packet
-    `" ++ [233]%N ++ runes_of_ascii "`	,x_y_z As	, zchar[
-/// triple
-// " ++ [128512]%N ++ runes_of_ascii " emoji
-3 ] chars `it's` ,
-} ,
-    repeat a1
-,@calculatedFrom(  ""it's"")uint64 x_y_z ,
-match metadata  as Packet
-{ [ """ ++ [233]%N ++ runes_of_ascii "t" ++ [233]%N ++ runes_of_ascii """]
-: BodyLength , 3 :
-    o  ,
-    //
-    65535 : Z9_// " ++ [27880; 37322]%N ++ runes_of_ascii "
-, [ ""CRC32""] :
-    Packet ,  ""a\\"":
-int , 4294967296 : Foo,}
-, repeat
+,	@lengthOf( 
+	    // @lengthOf(
+
 // trailing space 
-// c
-int {
-    // `tick` ""quote"" 'q'
-    lengthOf @lengthOf(o
-// trailing space 
-// " ++ [27880; 37322]%N ++ runes_of_ascii "
-) // " ++ [128512]%N ++ runes_of_ascii " emoji
-`// not a comment`// c
-, repeat Packet a1 ,}	,
-    //
-    @lengthOf( u )char[ 10 // @lengthOf(
-] packetx @calculatedFrom(""abc"" ) , @rightPad
-    ( '0' )  T,}
-")).
-Eval vm_compute in ("<<<M446>>>" ++ check (runes_of_ascii "// a // b
-MetaData x{ i8 MetaDataX
-`" ++ [233]%N ++ runes_of_ascii "`
-,
-string matchKey
-//	t
-// " ++ [27880; 37322]%N ++ runes_of_ascii "
-, // packet A { u8 x, }
-BodyLength
-f32a,
-char[ 7 ] u8x ,	char[] len , int16
-msg_type
-    , }packet o{ match roots as T{ [
-    255 , 1 , 1 , """ ++ [28040; 24687]%N ++ runes_of_ascii """
-, ""`tick`"",
-    ""a\""b""
-// c
-//x
-, 42	] :pack
-, [ 0 //
-,
-""// no comment"" ] :
-    Logon, [ ""1"", ""abc""
-, 255 , 3 , ""\n""	, 255 , """ ++ [128512]%N ++ runes_of_ascii """
-    ,
-    ""{,}""
-] // a // b
-:
-    x_y_z , }
-,
-    char[] len
-    @lengthOf(Pad )
-,
-char[]
-BodyLength ,trueish @calculatedFrom(""1"" )`" ++ [233]%N ++ runes_of_ascii "` , match
-chars as x_y_z{ ""`tick`""
-:calculatedFrom , } , @lengthOf( string_ ) char[
-    3 ]f32a,falsey `" ++ [28040; 24687; 31867; 22411]%N ++ runes_of_ascii "` ,
-repeat int64 //
-u128 `tab	here`, uint8 msg_type @calculatedFrom( ""a\\"" )  `line1
-line2`	, } options
-{
-    body =zchar[ 4294967296
-] ;u128 = '\x00' BodyLength= float32 }
-// @lengthOf(
-")).
-Eval vm_compute in ("<<<M343>>>" ++ check (runes_of_ascii "packet
-Pad{
-    } options { _x
-= false
-/// triple
-// trailing space 
-;} MetaData	repeatCount{char[ 10 ]  As `it's`
-, T metadata `say ""hi""` , u16
-matchKey ,  }packet u128{f32
-    As@calculatedFrom( ""packet"") `a\` , repeat
-// packet A { u8 x, }
-// " ++ [128512]%N ++ runes_of_ascii " emoji
-char[ 7 ]
-// packet A { u8 x, }
-// `tick` ""quote"" 'q'
-T `say ""hi""`,
-    @lengthOf(
-    // c
-    rootA )u64 //
-trueish `{ , }` , repeat char[
-3 ] MetaDataX ,
-    repeat float64  i64_ ,i16
-    charz
-    ,u8 trueish @lengthOf(
-    int
-    )`u8 x,`
-    ,
-    @leftPad ( '0' ) match
-Header
+    T )
+    u8x Header
+	,
+    repeat
+u16
+	Z9_  ,
+@leftPad ( '0' )repeat
+Z9_	{
+stringy	msg_type
+
+`
+`,As{  match
+	i8i8
+
 as
-f32a { [  007
-]
-:
-i8i8
-, ""a	b""	://x
-As ,
-[ ""\n"" ]  :	zchar ,
-    007:
-a1 ,	0123456789 : falsey
-, } , repeat float64 stringy	`a\`, } packet
-    MetaDataX
-{ roots
-    // @lengthOf(
-    leftPad `a\`, }")).
-Eval vm_compute in ("<<<M910>>>" ++ check (runes_of_ascii "//x
-packet zchar { match a1 as
-BodyLength
-    {
-    [// " ++ [128512]%N ++ runes_of_ascii " emoji
-""a\\""] :trueish ,
-} ,@leftPad (
-    //	t
-    '0' )	repeatCount @calculatedFrom( ""a	b"" )
-`tab	here`
-    ,int8 o @lengthOf(
-i64_ )
-    `u8 x,` ,
-    u8 chars	,
-} packet trueish {@lengthOf( crc )@calculatedFrom( """ ++ [128512]%N ++ runes_of_ascii """) @calculatedFrom(  ""`tick`""  )//x
-match BodyLength as Z9_
-    {
-    3: falsey [ 42 , 00 , 3
-, 10
+
+    chars
+{	10:
+    len,
+
+    [""abc""
+	,	42 
+
+//	t
+  // c
+,
+
+7]	:
+leftPad ,  42
+    :
+
+lengthOf  ,
+	00
+:zchar , 
+	//x
+},
+    i32
+
+i64_// @lengthOf(
+    ,
+repeat lengthOf
+
+    msg_type
+	``	//x
+  	,
+
+}
+,
+	int16
+
+Packet @calculatedFrom(
+
+""packet"" 
+) ,
+    }, len	@lengthOf( float 
+
+//
+  )
+    `two words`
+	, @calculatedFrom(//	t
+  ""a\""b"" 
+) 
+repeat
+    pack
+
+    ,
+	@tag(
+0
+    )  float32
+tag`tab	here`
+
+    ,  rootA 
+@calculatedFrom(
+
+""// no comment"" )
+    , 
+@lengthOf(x_y_z  )
+msg_type{ match
+    crc
+	as
+string_
+{ 0 :
+    u8x
+
+,
+10
+:// " ++ [27880; 37322]%N ++ runes_of_ascii "
+      crc 
+,	""x y"":
+    Pad, 3:
+
+a1,
+
+007 :
+    x ,
+[
+
+    """" 
 ]
     :
-    packetx	,255:
-metadata	,} // trailing space 
-, repeat x_y_z
-Header , @calculatedFrom( ""CRC32"" ) Z9_ // trailing space 
-{	x
-    // @lengthOf(
-    @calculatedFrom( ""1""
+A  } ,
+}
+	, 
+@calculatedFrom( ""CRC32"" 
+)
+    @rightPad
+
+(
+    ' ' )
+@tag( 10)
+    match
+	zchar as 
+body {
+65535  // trailing space 
+
+: 
 // packet A { u8 x, }
-//x
-) `it's`	,
-// packet A { u8 x, }
-// trailing space 
-string
-Header, }
+    tag
+	}
 ,
-    @lengthOf( roots  ) i64_
-    , }
-// @lengthOf(
-")).
-Eval vm_compute in ("<<<M420>>>" ++ check (runes_of_ascii "MetaData // `tick` ""quote"" 'q'
-uint8x { char[// `tick` ""quote"" 'q'
-7 ] Foo ,	float64
+} ")).
+Eval vm_compute in ("<<<M753>>>" ++ check (runes_of_ascii "MetaData
+u8x {
+    string Packet, leftPad _x `doc` ,
+}options
+{
 //x
 /// triple
-repeatCount
-,/// triple
-a1 uint8x `// not a comment` , }
-    packet
-Header{	@calculatedFrom( ""packet""  ) repeat calculatedFrom charz , } packet rootA { @calculatedFrom(""abc"") @calculatedFrom( """"	)	@lengthOf( // " ++ [128512]%N ++ runes_of_ascii " emoji
-asx)
-repeat
-    repeatCount,
-repeat// " ++ [128512]%N ++ runes_of_ascii " emoji
-o {
-crc options1
+Header = //	t
+""1""
+/// triple
+//	t
+x = '\x00' falsey= int64
+f32a =char[ 007
+    ] ;
+Foo ='0'
+    // @lengthOf(
+    ;
+    /// triple
+    }
+options {  leftPad = false
+    // c
+    Z9_=""a	b""
+    asx = '0' }packet
+    int { repeat stringy
+falsey , @tag( // trailing space 
+0 )//	t
+repeat pack
+    ,@tag(65535 )match
+// a // b
+// `tick` ""quote"" 'q'
+Z9_ as lengthOf {
+007 : MetaDataX ,
+[ ""CRC32""
+    ,""" ++ [233]%N ++ runes_of_ascii "t" ++ [233]%N ++ runes_of_ascii """	,	""packet""
+, ""\n""
+//x
+//x
+,""1"" // a // b
+]: options1 ,[ ""CRC32"" , ""`tick`"" ,""\n"" ] :
+int , 0123456789 : uint8x [3 ,  255 ]: lengthOf
+,
+    } , @leftPad (
+    '\x00')
+// packet A { u8 x, }
+// trailing space 
+repeat chars ``
+    // " ++ [128512]%N ++ runes_of_ascii " emoji
+    , @calculatedFrom(""x y""
+    )@tag(
+    /// triple
+    10 ) @tag(	0123456789 ) _x rootA`a\`,  @lengthOf( stringy //
+)int @calculatedFrom(
+""{,}""	) , repeat u64
+stringy , @lengthOf( rootA) match
+f32a as len{[ 0]: charz , 42 : asx ""it's"" : body ""{,}""	:// " ++ [27880; 37322]%N ++ runes_of_ascii "
+Logon
+    ""\" ++ [233]%N ++ runes_of_ascii """ : BodyLength,
+}	,
+}
+")).
+Eval vm_compute in ("<<<M806>>>" ++ check (runes_of_ascii "packet repeatCount
+// @lengthOf(
+//
+{ repeat	Header, char[
+42
+    ]rootA ``
+    ,@lengthOf(
+    stringy )repeat int16 leftPad
+,repeat // `tick` ""quote"" 'q'
+crc
+    {
 //x
 // " ++ [128512]%N ++ runes_of_ascii " emoji
-, zchar[
-7] A	, Z9_	@lengthOf(Pad
-) ,
-calculatedFrom
-    // trailing space 
-    @calculatedFrom(
-""a\""b"" ) // packet A { u8 x, }
-, } , repeat a1 Foo `{ , }` ,
-    charz , } options { body=
-    """ ++ [28040; 24687]%N ++ runes_of_ascii """  ;
-packetx // a // b
-=
-    0 }
-MetaData _x // @lengthOf(
-{ int16 crc, }")).
-Eval vm_compute in ("<<<M4437>>>" ++ check (runes_of_ascii "packet float {
-    match asx as len {
-        255 : metadata,
-    },
-    char[4294967296] x @lengthOf(lengthOf),
-    matchKey int,
-}
-
-packet falsey {
-    @tag(0123456789)
-    match u128 as stringy {
-        // " ++ [128512]%N ++ runes_of_ascii " emoji
-        0123456789 : u128,
-        // packet A { u8 x, }
-        [3, 7, 10, 0, ""CRC32""] : o,
-        1 : charz,
-        0123456789 : u,
-        255 : pack,
-    },
-}
-
-packet T {
-    @lengthOf(Z9_)
-    @rightPad('0')
-    @calculatedFrom(""// no comment"")
-    zchar[007] leftPad,
-    @calculatedFrom(""1"")
-    char[] As `two words`,
-    @leftPad('0')
-    repeat char[0123456789] x `// not a comment`,
-    char[1] _x,
-}")).
-Eval vm_compute in ("<<<M269>>>" ++ check (runes_of_ascii "// trailing space 
-packet
-// packet A { u8 x, }
-// packet A { u8 x, }
-o {
-@calculatedFrom(
-""`tick`""
-    //	t
-    )repeat i8 rootA
-, @calculatedFrom( ""`tick`""	)Logon
-body`line1
-line2` , // " ++ [128512]%N ++ runes_of_ascii " emoji
-@lengthOf(crc )@tag( 0
-) repeat
-falsey string_ , @calculatedFrom(
-"""" )
-    lengthOf/// triple
-, u16 calculatedFrom ,
-    i8i8//x
-tag `two words` , @tag( 1)	string rootA`u8 x,`
-,match pack as int { [
-""" ++ [233]%N ++ runes_of_ascii "t" ++ [233]%N ++ runes_of_ascii """
-, ""\" ++ [233]%N ++ runes_of_ascii """	, 10 ,  0,
-4294967296 , ""packet"" ,""" ++ [28040; 24687]%N ++ runes_of_ascii """
-,""" ++ [233]%N ++ runes_of_ascii "t" ++ [233]%N ++ runes_of_ascii """ ] : int
+zchar[00  ]body
+    @lengthOf( Foo) , repeat Logon { MetaDataX
+    @lengthOf(trueish ) , uint8	asx@calculatedFrom( ""\" ++ [233]%N ++ runes_of_ascii """) , metadata {
+uint8x @lengthOf( stringy ) ,
+    repeat  BodyLength
+metadata `say ""hi""` ,}
 //x
-// trailing space 
-, 3
-    :zchar , """ ++ [128512]%N ++ runes_of_ascii """
-:
-options1, 00 // c
-:x_y_z , 4294967296 :
-chars , } ,float32 matchKey
-    //x
+//
+, repeat char[] u, // trailing space 
+}
+, int16 matchKey ``
+, char[]// trailing space 
+u8x
+@lengthOf(string_ )
+    ,	} , // @lengthOf(
+match Logon
+as	zchar { [""x y"" , 65535// c
+,  10 ] : chars [
+    ""{,}""
     ,
-T
-,}
+""a\""b""]
+:leftPad ,
+    //	t
+    65535 : metadata//
+,[
+    10 , 7 // a // b
+, ""// no comment""
+    ,// `tick` ""quote"" 'q'
+0
+    , 65535 , // `tick` ""quote"" 'q'
+""abc""
+, 7 // " ++ [27880; 37322]%N ++ runes_of_ascii "
+,42
+    ]  :MetaDataX
+},
+    repeat int8	packetx `// not a comment` ,// a // b
+} packet
+    x // a // b
+{ u16 roots
+,
+} options{ int  =  4294967296 u8x = false ; }")).
+Eval vm_compute in ("<<<M1272>>>" ++ check (runes_of_ascii "// @lengthOf(
+packet options1 {@lengthOf(i8i8 ) i64_
+int  `{ , }`, char[] int
+, zchar[ 00
+//	t
+// packet A { u8 x, }
+] len,
+}
+packet u128 {  @tag(  3 //	t
+)	@calculatedFrom(
+//
+// @lengthOf(
+""// no comment"" )
+options1// packet A { u8 x, }
+{ int16 //x
+calculatedFrom @calculatedFrom( """ ++ [28040; 24687]%N ++ runes_of_ascii """ )	, chars @lengthOf( calculatedFrom )  ,crc
+{
+o @calculatedFrom( """ ++ [233]%N ++ runes_of_ascii "t" ++ [233]%N ++ runes_of_ascii """ ) , float u8x
+    , repeat metadata uint8x , }
+, }, float64	options1,@leftPad
+( ) @lengthOf( Foo) @calculatedFrom(
+""packet"")
+//	t
+// c
+char[ 1 // c
+] i8i8
+@calculatedFrom( ""abc""
+) `{ , }`	,
+@leftPad  ( '0' )  T
+{ int32
+i8i8	`u8 x,`
+    //
+    , match
+Z9_ as string_ { [ 7 , 10 , 65535 ,0 , 42, 255	, ""\" ++ [233]%N ++ runes_of_ascii """
+    // packet A { u8 x, }
+    ,
+""`tick`""] : Foo ,
+""" ++ [233]%N ++ runes_of_ascii "t" ++ [233]%N ++ runes_of_ascii """ :
+u8x[ 255 , """" ,0
+,
+""""
+, """ ++ [233]%N ++ runes_of_ascii "t" ++ [233]%N ++ runes_of_ascii """,
+    255, 4294967296 , 00 ] : i64_ ,
+10
+    : Foo}
+    ,
+    // trailing space 
+    pack @calculatedFrom( ""`tick`"" ) ,} ,
+    a1//	t
+`say ""hi""`, }
 ")).
-Eval vm_compute in ("<<<M678>>>" ++ check (runes_of_ascii "packet
-MetaDataX
-{
-    matchKey , }packet x
-    { i32 msg_type
-,leftPad
-{ string Logon // " ++ [27880; 37322]%N ++ runes_of_ascii "
-@lengthOf(body )
-    ,} ,/// triple
-repeat
-    options1
-{
-    i8i8 msg_type `a\` , } , @tag( 0
-)
-    @leftPad() // `tick` ""quote"" 'q'
-int64 f32a
-@lengthOf( asx) `tab	here`,char[]  pack
-`" ++ [28040; 24687; 31867; 22411]%N ++ runes_of_ascii "` , //x
-@lengthOf(	stringy ) repeat leftPad  , @leftPad // packet A { u8 x, }
-( ' '//	t
-) @leftPad (  )
-    match Logon	as roots{//x
-""`tick`""// a // b
-:
+Eval vm_compute in ("<<<M382>>>" ++ check (runes_of_ascii "
+packet u {@calculatedFrom(""// no comment""  ) string
+//	t
+// a // b
 string_
-,	}	, @tag(
-    0123456789// `tick` ""quote"" 'q'
+,@calculatedFrom( //	t
+""\" ++ [233]%N ++ runes_of_ascii """ ) match string_ as
+len  { """ ++ [233]%N ++ runes_of_ascii "t" ++ [233]%N ++ runes_of_ascii """ :
+    roots ,	[""a\""b""
+,
+""x y"" , """", // `tick` ""quote"" 'q'
+""" ++ [28040; 24687]%N ++ runes_of_ascii """ ,""packet"" , 7, 3  ]
+    //x
+    : /// triple
+As, [ """ ++ [128512]%N ++ runes_of_ascii """ ,
+    ""// no comment""	, 10 ,
+    //
+    10] : roots ,""" ++ [28040; 24687]%N ++ runes_of_ascii """ : packetx
+    , //
+[""1""] :	calculatedFrom ,[1
+]
+    :len , }, x_y_z
+    @calculatedFrom( ""a\""b"") `say ""hi""` , As
+    @lengthOf(
+    roots
+    ) ,
+    // a // b
+    @calculatedFrom( """ ++ [233]%N ++ runes_of_ascii "t" ++ [233]%N ++ runes_of_ascii """ ) char  i64_
+@lengthOf(Header ) , //
+u8 int
+    @lengthOf(	i64_ )
+    `crlf
+line` ,// `tick` ""quote"" 'q'
+@calculatedFrom( // " ++ [27880; 37322]%N ++ runes_of_ascii "
+""1"" ) zchar[3 ] Packet
+,
+// `tick` ""quote"" 'q'
+//x
+uint8
+    u128`line1
+line2`
+    ,
+    }	options
+    { Header = true
+    ;  Packet
+    // a // b
+    =
+    0123456789
+    matchKey=
+    /// triple
+    zchar[ 4294967296] }
+")).
+Eval vm_compute in ("<<<M23>>>" ++ check (runes_of_ascii "root // c
+packet msg_type	{ repeat// packet A { u8 x, }
+A { repeat a1
+    { repeat  len// trailing space 
+, }
+    ,pack string_,	zchar[ 7 ] msg_type  @lengthOf(u
+) , } ,
+    repeat
+zchar[ // `tick` ""quote"" 'q'
+00] tag, u64 o@calculatedFrom(""a\\""
+    // trailing space 
+    ) ,  }
+    packet charz {@tag( 0
+) // c
+repeat
+    // a // b
+    u {
+char[007 ] T,}, repeatCount @calculatedFrom( ""\n""
 )
-@calculatedFrom(
-    ""1""
-) @leftPad(
-) u32	x_y_z @calculatedFrom(
-""\" ++ [233]%N ++ runes_of_ascii """ )
+,
+}packet
+trueish {
+@calculatedFrom( ""a\\"") @rightPad
+    ('0' ) // `tick` ""quote"" 'q'
+@lengthOf( BodyLength
+) string asx @lengthOf( A	),
+//x
+/// triple
+@rightPad (
+' '
+) match pack
+    // @lengthOf(
+    as leftPad
+{  [
+1 ]// a // b
+:
+body , [ ""a	b""]
+:msg_type , // `tick` ""quote"" 'q'
+10 :calculatedFrom ,7 : packetx,
+""" ++ [233]%N ++ runes_of_ascii "t" ++ [233]%N ++ runes_of_ascii """
+: roots ,	}
+    ,@calculatedFrom(""1""
+    )  repeat roots
+    // c
+    u8x
     ,}
 ")).
-Eval vm_compute in ("<<<M1359>>>" ++ check (runes_of_ascii "packet  Foo {
-@calculatedFrom(
-""`tick`"" ) @rightPad
-    ( ' ' )
-/// triple
-//x
-repeat float { repeatCount
-    , /// triple
-zchar[ 0123456789
-    ]rootA
-@calculatedFrom(	""{,}"")
-, match
-// c
-// a // b
-matchKey
-as T { ""\n"" :o
-//
-// `tick` ""quote"" 'q'
-00 : tag [3 // trailing space 
-, 65535
-    // trailing space 
-    ] : body,	}	,
-} ,
-@rightPad
-    // @lengthOf(
-    (
-    ' ' ) @leftPad
-('0' ) string packetx @calculatedFrom(""x y"" )
-    ,  @lengthOf( charz ) string i64_ `crlf
-line`, @rightPad  ('0' ) repeat string calculatedFrom `tab	here`,}
-")).
-Eval vm_compute in ("<<<M1075>>>" ++ check (runes_of_ascii "options
-    // packet A { u8 x, }
-    { u = ""a\""b""
-    // `tick` ""quote"" 'q'
-    ;}packet matchKey {char[
-/// triple
-// `tick` ""quote"" 'q'
-42 ]
-    len @lengthOf( f32a
-    //	t
-    )
-`it's`// packet A { u8 x, }
-, @lengthOf( x_y_z )@calculatedFrom(//
-""CRC32"" // " ++ [128512]%N ++ runes_of_ascii " emoji
-) uint16 f32a@lengthOf( zchar )
-    `" ++ [233]%N ++ runes_of_ascii "` , @lengthOf( Z9_
-    //x
-    )
-// c
-// @lengthOf(
-@leftPad ( '0' )  repeat
-    falsey { options1 ,char charz `doc`, zchar[ 10 ] leftPad // c
-, // " ++ [27880; 37322]%N ++ runes_of_ascii "
-} , } packet	o { stringy @calculatedFrom(
-    ""CRC32"")
-    , }
-")).
-Eval vm_compute in ("<<<M1191>>>" ++ check (runes_of_ascii "packet
-    // @lengthOf(
-    T { char[ 007 ] leftPad
-@calculatedFrom( ""`tick`"" ) `{ , }`, f32 int , @calculatedFrom( """ ++ [233]%N ++ runes_of_ascii "t" ++ [233]%N ++ runes_of_ascii """	)
-int // a // b
-{int16	Packet ,  char[ 255
-]
-    Logon , char[ 0123456789] T /// triple
-@lengthOf( i64_
-) , i8
-    // packet A { u8 x, }
-    crc `tab	here`,
+Eval vm_compute in ("<<<M4299>>>" ++ check (runes_of_ascii "
+options { 
+LittleEndian=false ;
+	StringPrefixLenType = u8
+;
+
+    ArrayPrefixLenType =
+
+u8; FixedStringPadFromLeft
+    =true
+	; 
+FixedStringPadChar 
+=
+' ' ;
+
     }
-, char[ 0 ] string_	, int8 msg_type `" ++ [28040; 24687; 31867; 22411]%N ++ runes_of_ascii "` // `tick` ""quote"" 'q'
-, int64 u// a // b
-`tab	here`
-,
-repeat
-u128  ,
-float64
-i64_ @calculatedFrom( """ ++ [28040; 24687]%N ++ runes_of_ascii """ )
-    , //
-@lengthOf( crc ) Header chars , float32	x, }
-")).
-Eval vm_compute in ("<<<M4398>>>" ++ check (runes_of_ascii "packet o {
-    repeat MetaDataX,
-    uint64 f32a `" ++ [233]%N ++ runes_of_ascii "`,
-    f32 packetx `doc`,
-    leftPad {
-        repeat len x,
-        zchar[0123456789] tag @lengthOf(MetaDataX),
-        chars {
-            zchar[65535] u8x `" ++ [28040; 24687; 31867; 22411]%N ++ runes_of_ascii "`,
-            u16 BodyLength @calculatedFrom(""`tick`"") `line1
-                        line2`,
-            char[] stringy,
-            repeat i64_ charz `crlf
-                        line`,// trailing space 
-        },
-        f32 msg_type,
-    },
-    x ``,
-}")).
-Eval vm_compute in ("<<<M480>>>" ++ check (runes_of_ascii "MetaData
-    o {
-    } packet BodyLength { @tag(
-255 ) zchar[ 00 ]
-    leftPad@lengthOf( float  )
-`" ++ [233]%N ++ runes_of_ascii "` , }	packet
-asx {
-    @leftPad ( )	char[] _x,
-char[ 65535
-    ] /// triple
-trueish
-@calculatedFrom( ""a\""b"") ,
-int64 u
-    , match x as u8x { 255 //	t
-:/// triple
-o, 65535: asx ,  ""a\\""
-:
-string_
-, ""\" ++ [233]%N ++ runes_of_ascii """
-    : f32a, 65535
-: //	t
-x_y_z
-    ,  7
-:uint8x	}
-    , repeat msg_type { u128 charz `` , u64 options1	, repeat  a1 `` ,	} , repeatCount  ,}
-// c
-")).
-Eval vm_compute in ("<<<M3626>>>" ++ check (runes_of_ascii "options {
-    LittleEndian = true;
-    StringPrefixLenType = u16;
-    ArrayPrefixLenType = u64;
-}
-packet Fill {
-}
-packet Logon {
-    repeat char[3] Tail,
-    zchar[6] venue,
-    repeat string Side2,
-}
-root packet Cancel {
-    char[] Flags,
-    char[] OrderId,
-    zchar[6] msgKind,
-    Fill,
-    char[] Acct,
-    u8 f1,
-    match f1 as Body {
-        188 : Fill,
-        5 : Logon,
-    },
-    u32 clOrdID @calculatedFrom(""CR\
-C32""),
-}
-")).
-Eval vm_compute in ("<<<M617>>>" ++ check (runes_of_ascii "root packet BodyLength { int8 asx ``
-    , match stringy  as falsey
-    { 7
-:stringy } , Header `u8 x,` ,match string_  as falsey{ 007 :
-    BodyLength 65535:	roots [
-//
-//x
-10,
-00, ""a\""b""  , 0123456789 ,	3
-    , /// triple
-""" ++ [233]%N ++ runes_of_ascii "t" ++ [233]%N ++ runes_of_ascii """, ""x y"" , ""abc""
-] :
-crc , 0123456789
-    : f32a
-, 1
-    :
-    Logon,  [""CRC32"" // a // b
-,
-""a	b"" ,
-    65535 , ""1"" ,// trailing space 
-""1""	,
-65535 ] :
-zchar //	t
-,  } , i64_ , } //	t")).
-Eval vm_compute in ("<<<M419>>>" ++ check (runes_of_ascii "/// triple
-MetaData
-x {uint64 u `doc`	, }
-root
-packet
-i8i8
-    {uint32
-    zchar @lengthOf( chars ) , string rootA@calculatedFrom(
-    ""\n""
-) , } packet	MetaDataX
-//	t
-/// triple
-{ i32 A
-    @lengthOf( string_ )
-`` , @calculatedFrom( ""a\\"" ) @lengthOf( roots ) msg_type asx  `crlf
-line` ,@lengthOf(//
-metadata ) @calculatedFrom( """ ++ [28040; 24687]%N ++ runes_of_ascii """) @leftPad
-(
-) repeat string o `// not a comment`
-    , } //x")).
-Eval vm_compute in ("<<<M3801>>>" ++ check (runes_of_ascii "  packet	body {	@rightPad
-	(
-	' ')
-    msg_type
-{
-match	u as
-
-    zchar
-
-    { 
-""""  // c
-    	:metadata
-
-    , 
-} 
-, As
-	@calculatedFrom( 
-""CRC32""
-    // " ++ [128512]%N ++ runes_of_ascii " emoji
-// " ++ [27880; 37322]%N ++ runes_of_ascii "
-		)	,
-
-//x
-		// @lengthOf(
-    }
-, repeat
-
-u16 tag,repeat
-
-    MetaDataX,
-
-}
-    packet  Foo 
-{  @rightPad 
-( 
-)	@leftPad
-( ' ')@calculatedFrom(	""\" ++ [233]%N ++ runes_of_ascii """
-    )	i8
-	i64_	,	repeat
-
-uint16
-	float  ,
-	}
-")).
-Eval vm_compute in ("<<<M245>>>" ++ check (runes_of_ascii "root packet  roots
-{ falsey@calculatedFrom(""a\""b"" ) ,
-    @lengthOf(
-A )Header @calculatedFrom( ""packet""
-) `u8 x,` ,
-@leftPad  (' '
-) @lengthOf(
-    calculatedFrom)
-// `tick` ""quote"" 'q'
-// packet A { u8 x, }
-match rootA as x_y_z {42	:
-    //	t
-    len, }, } options //x
-{ chars =// c
-4294967296 ;
-    BodyLength
-    = 0123456789 roots
-    = ""a\""b"";
-} //")).
-Eval vm_compute in ("<<<M3992>>>" ++ check (runes_of_ascii "packet string_ {
-    zchar[3] stringy @lengthOf(packetx) `u8 x,`,// `tick` ""quote"" 'q'
-    f64 string_ ``,
-}
-
-MetaData leftPad {
-    char[1] MetaDataX `crlf
-    line`,
-    metadata a1 `tab	here`,
-    T o `line1
-    line2`,
-    o trueish,
-}
-
-options {
-}
-
-MetaData T {
-    Foo Logon,
-    Logon lengthOf,
-    char[00] pack,
-    char[7] i8i8 ``,
-}")).
-Eval vm_compute in ("<<<M955>>>" ++ check (runes_of_ascii "
-options { u128
-// c
-// packet A { u8 x, }
-=false
-}packet i64_
-{ @calculatedFrom( ""a	b"" ) Z9_ {
-    x_y_z`two words` , string_
-/// triple
-//x
-, }, match // trailing space 
-BodyLength as As {
-    //x
-    [
-""a\""b""]: Z9_	, } ,
-//	t
-// a // b
-char[]	asx
-,
-    i16
-crc `doc` , } packet o
-    { @leftPad ( '\x00' ) repeat u8x
-T,
-    }
-")).
-Eval vm_compute in ("<<<M1876>>>" ++ check (runes_of_ascii "MetaData
-    u { }  options options {
-// c
-// @lengthOf(
-float = int8 ;rootA =false ; As =	int16 // `tick` ""quote"" 'q'
-repeatCount
-    // trailing space 
-    =
-    int16
-; u8x =
-    //	t
-    '\x00' ; } options	{
-    repeatCount
-= 0
-u128
-    //
-    = false ; i64_
-// trailing space 
-// `tick` ""quote"" 'q'
-= '0' ; //	t
-}
-")).
-Eval vm_compute in ("<<<M1993>>>" ++ check (runes_of_ascii "MetaData
-    u { }  options {
-// c
-// @lengthOf(
-float = int8 ;rootA =false ; As =	int16 // `tick` ""quote"" 'q'
-repeatCount
-    // trailing space 
-    =
-    int16
-; u8x =
-    //	t
-    '\x00' ; } options	false
-    repeatCount
-= 0
-u128
-    //
-    = false ; i64_
-// trailing space 
-// `tick` ""quote"" 'q'
-= '0' ; //	t
-}
-")).
-Eval vm_compute in ("<<<M2006>>>" ++ check (runes_of_ascii "MetaData
-    u { }  options {
-// c
-// @lengthOf(
-float = int8 ;rootA =false ; As =	int16 // `tick` ""quote"" 'q'
-repeatCount
-    // trailing space 
-    =
-    int16
-; u8x =
-    //	t
-    '\x00' ; } options	{
-    repeatCount
-= 0 0
-u128
-    //
-    = false ; i64_
-// trailing space 
-// `tick` ""quote"" 'q'
-= '0' ; //	t
-}
-")).
-Eval vm_compute in ("<<<M1858>>>" ++ check (runes_of_ascii "u
-    MetaData { }  options {
-// c
-// @lengthOf(
-float = int8 ;rootA =false ; As =	int16 // `tick` ""quote"" 'q'
-repeatCount
-    // trailing space 
-    =
-    int16
-; u8x =
-    //	t
-    '\x00' ; } options	{
-    repeatCount
-= 0
-u128
-    //
-    = false ; i64_
-// trailing space 
-// `tick` ""quote"" 'q'
-= '0' ; //	t
-}
-")).
-Eval vm_compute in ("<<<M2002>>>" ++ check (runes_of_ascii "MetaData
-    u { }  options {
-// c
-// @lengthOf(
-float = int8 ;rootA =false ; As =	int16 // `tick` ""quote"" 'q'
-repeatCount
-    // trailing space 
-    =
-    int16
-; u8x =
-    //	t
-    '\x00' ; } options	{
-    repeatCount
-0 =
-u128
-    //
-    = false ; i64_
-// trailing space 
-// `tick` ""quote"" 'q'
-= '0' ; //	t
-}
-")).
-Eval vm_compute in ("<<<M2015>>>" ++ check (runes_of_ascii "MetaData
-    u { }  options {
-// c
-// @lengthOf(
-float = int8 ;rootA =false ; As =	int16 // `tick` ""quote"" 'q'
-repeatCount
-    // trailing space 
-    =
-    int16
-; u8x =
-    //	t
-    '\x00' ; } options	{
-    repeatCount
-= 0
-u128
-    //
-     false ; i64_
-// trailing space 
-// `tick` ""quote"" 'q'
-= '0' ; //	t
-}
-")).
-Eval vm_compute in ("<<<M1998>>>" ++ check (runes_of_ascii "MetaData
-    u { }  options {
-// c
-// @lengthOf(
-float = int8 ;rootA =false ; As =	int16 // `tick` ""quote"" 'q'
-repeatCount
-    // trailing space 
-    =
-    int16
-; u8x =
-    //	t
-    '\x00' ; } options	{
-    match
-= 0
-u128
-    //
-    = false ; i64_
-// trailing space 
-// `tick` ""quote"" 'q'
-= '0' ; //	t
-}
-")).
-Eval vm_compute in ("<<<M4107>>>" ++ check (runes_of_ascii "// " ++ [128512]%N ++ runes_of_ascii " emoji
-options {
-}
-
-packet a1 {
-    @lengthOf(Foo)
-    pack {
-        repeat matchKey leftPad,
-        zchar[7] zchar `{ , }`,
-        charz @lengthOf(x_y_z) `
-                `,
-    },
-}
-
-root packet roots {
-}
-
-options {
-    calculatedFrom = false;
-    o = int64;
-    u = ""a\\""
-    zchar = 42;
-}")).
-Eval vm_compute in ("<<<M3912>>>" ++ check (runes_of_ascii "options{ LittleEndian =true
-	;	}	packet
-    Sub 
-{  u8 
-a,
-	@calculatedFrom(""CRC16""
-) u64	SubSum
-,
-}
-
-root packet Frame
-{ u16  MsgType ,
-u16
-    BodyLen
-@lengthOf(
-Body
-	)
-    ,Sub 
-Body,  string	note
-
-    , 
-@calculatedFrom(
-
-    ""CRC16""
-
-    )	u64
-
-Checksum 
-,	u8
-	tail 
-, 
-} ")).
-Eval vm_compute in ("<<<M575>>>" ++ check (runes_of_ascii "packet	crc{ @calculatedFrom(
-    // `tick` ""quote"" 'q'
-    """" ) int8 len @lengthOf(lengthOf ) , @leftPad
-/// triple
-// " ++ [27880; 37322]%N ++ runes_of_ascii "
-('\x00' )  _x //x
-@calculatedFrom(
-    """ ++ [28040; 24687]%N ++ runes_of_ascii """
-), string leftPad @lengthOf(	packetx
-    )
-`say ""hi""` ,// packet A { u8 x, }
-} options
-{u128 =
-    65535 ; }")).
-Eval vm_compute in ("<<<M4360>>>" ++ check (runes_of_ascii "packet
-    MDSnapshotZZ	{
-u8 a	,
-	}
 
 packet
-OrderACK	{ u16
-	b ,}
-    packet HTTPServerInfo
-    {
-    string  s
-	,} root
-packet 
-FIXMsg	{
+	Trade
+    {  zchar[
 
-u8
-KType
-,MDSnapshotZZ ,  repeat 
-OrderACK
-,
-match  KType
-    as 
-Body
-{  1:
-HTTPServerInfo 
-, 
 2
 
-    :
-OrderACK
-,
-}	, }
-")).
-Eval vm_compute in ("<<<M55>>>" ++ check (runes_of_ascii "// " ++ [27880; 37322]%N ++ runes_of_ascii "
-options { u8x
-=false}	packet crc
-{ @leftPad
-    ( // `tick` ""quote"" 'q'
-'\x00'
-)@calculatedFrom( ""a\""b"" ) char[] u@lengthOf(
-    x ), stringy
-charz	`" ++ [233]%N ++ runes_of_ascii "`
-// c
-// c
-,
-} packet
-// c
-//x
-tag {
-    string T,zchar[ 7
-    ] leftPad ,// `tick` ""quote"" 'q'
-}
-")).
-Eval vm_compute in ("<<<M1533>>>" ++ check (runes_of_ascii "packet
-//	t
-// trailing space 
-_x {
-// packet A { u8 x, }
-// c
-char[
-3
-    ] u8x @lengthOf(
-u8x ) ) , @calculatedFrom(""" ++ [128512]%N ++ runes_of_ascii """ // @lengthOf(
-)
-i16	Foo
-@lengthOf(	string_
-    )`doc`	, repeat	i64 metadata , @lengthOf( string_
-) i8 // c
-u  `line1
-line2`	,
-}
-")).
-Eval vm_compute in ("<<<M4382>>>" ++ check (runes_of_ascii "options {
-    uint8x = 3;
-    crc = 42
-    Logon = '\x00'
-    falsey = false
-}
+    ] 
+Side2
+    , i8
+seqNo ,
 
-root packet zchar {
-    int16 u,
-}
+    } packet
 
-root packet Header {
-    @rightPad(' ')
-    @lengthOf(a1)
-    repeat body,
-    zchar[65535] string_ @lengthOf(MetaDataX),// @lengthOf(
-}")).
-Eval vm_compute in ("<<<M1609>>>" ++ check (runes_of_ascii "packet
-//	t
-// trailing space 
-_x {
-// packet A { u8 x, }
-// c
-char[
-3
-    ] u8x @lengthOf(
-u8x ) , @calculatedFrom(""" ++ [128512]%N ++ runes_of_ascii """ // @lengthOf(
-)
-i16	Foo
-@lengthOf(	string_
-    )`doc`	, repeat	i64 metadata @lengthOf( , string_
-) i8 // c
-u  `line1
-line2`	,
-}
-")).
-Eval vm_compute in ("<<<M1491>>>" ++ check (runes_of_ascii "true
-//	t
-// trailing space 
-_x {
-// packet A { u8 x, }
-// c
-char[
-3
-    ] u8x @lengthOf(
-u8x ) , @calculatedFrom(""" ++ [128512]%N ++ runes_of_ascii """ // @lengthOf(
-)
-i16	Foo
-@lengthOf(	string_
-    )`doc`	, repeat	i64 metadata , @lengthOf( string_
-) i8 // c
-u  `line1
-line2`	,
-}
-")).
-Eval vm_compute in ("<<<M1570>>>" ++ check (runes_of_ascii "packet
-//	t
-// trailing space 
-_x {
-// packet A { u8 x, }
-// c
-char[
-3
-    ] u8x @lengthOf(
-u8x ) , @calculatedFrom(""" ++ [128512]%N ++ runes_of_ascii """ // @lengthOf(
-)
-i16	Foo
-i32	string_
-    )`doc`	, repeat	i64 metadata , @lengthOf( string_
-) i8 // c
-u  `line1
-line2`	,
-}
-")).
-Eval vm_compute in ("<<<M615>>>" ++ check (runes_of_ascii "
-MetaData
-    Header { int16 //	t
-i64_ , } packet
-u8x
-{@tag(4294967296 ) zchar[
-//	t
-// " ++ [27880; 37322]%N ++ runes_of_ascii "
-255 ] MetaDataX`
-`,} options { pack = ""a	b"";crc =
-    true _x
-    =
-4294967296 ;Z9_ = ' ' } root packet// a // b
-repeatCount  { char[]
-u8x ,  }
-")).
-Eval vm_compute in ("<<<M4092>>>" ++ check (runes_of_ascii "  options
+    Party{  uint32 price ,}
+	packet	Ack
 {
-u128	// packet A { u8 x, }
-	  =  ""x y"" 
-}
-packet // a // b
-    rootA  // @lengthOf(
+@rightPad	(
+    '\x00'
+)
+
+    char[	6 
+] x	, 
+repeat	char[4]
+	Flags  ,
+
+    zchar[ 
+9
+
+    ]
+f1 , }
+	packet Cancel
+
     { 
-  // " ++ [27880; 37322]%N ++ runes_of_ascii "
-  } packet metadata
-    {@tag( 007
+Ack
 
-    // " ++ [128512]%N ++ runes_of_ascii " emoji
-    ) repeat u8
+, } 
+packet
+    Heartbeat 
+{
+    string	Px
 
-    A	`// not a comment`
+,
+
+string
+Acct ,
+f64 Side2,
+InQty24
+	{	i16	seqNo ,  repeat i32
+Flags
+,
+    }
+
+    , } 
+root packet
+	Logon
+{
+	Trade ,i64  venue	,
+	u32
+x,
+    u8 seqNo
+, match
+
+    seqNo as
+
+Body
+{[ 1
+	,
+
+164]
+:
+Ack 
+,31:Cancel
+    , 23 :
+
+Heartbeat
 
     ,
+
+    64
+    :
+    Party ,}, }")).
+Eval vm_compute in ("<<<M303>>>" ++ check (runes_of_ascii "root packet tag
+    //x
+    { @tag(
+// trailing space 
+//x
+4294967296) zchar[ 255
+    ]
+    Foo	@calculatedFrom( ""\" ++ [233]%N ++ runes_of_ascii """  )// trailing space 
+, @lengthOf( // packet A { u8 x, }
+packetx
+) @tag( 1) @lengthOf( string_ ) // a // b
+zchar[
+255] u	, Z9_ {repeat stringy  {repeat
+body , }
+    ,
+    // `tick` ""quote"" 'q'
+    } ,
+    //
+    repeat uint8  a1 , i64// c
+tag  ,
+    // " ++ [128512]%N ++ runes_of_ascii " emoji
     }
+    packet uint8x { // a // b
+@lengthOf( BodyLength	) @lengthOf( int )
+    //
+    uint64 As `{ , }` ,
+    char[
+65535	] zchar
+// " ++ [27880; 37322]%N ++ runes_of_ascii "
+// trailing space 
+@lengthOf(
+    stringy ) `tab	here` ,rootA @calculatedFrom( // a // b
+""x y"" ) , repeat options1	{ i8i8 calculatedFrom,
+// " ++ [27880; 37322]%N ++ runes_of_ascii "
+// `tick` ""quote"" 'q'
+}, repeat char[ 0]
+    MetaDataX ,} //")).
+Eval vm_compute in ("<<<M442>>>" ++ check (runes_of_ascii "
+packet tag {
+float32 repeatCount @calculatedFrom( ""// no comment"") ,}
+    packet i64_{
+char[00 ] calculatedFrom ,// " ++ [128512]%N ++ runes_of_ascii " emoji
+@calculatedFrom( ""packet"" ) i16  Packet ,
+    falsey
+    { char[]
+    // c
+    calculatedFrom @lengthOf( stringy )
+    // `tick` ""quote"" 'q'
+    `` ,}//
+, repeat i32 matchKey , repeat char[ 7
+    ]/// triple
+tag`// not a comment` ,leftPad
+{// @lengthOf(
+char[]
+    i8i8 , }
+,  @lengthOf(x_y_z) char[ 3 ] matchKey ``  ,float { char[] chars, repeat
+    zchar[  1 ]x_y_z ,
+} , i8 x_y_z
+//	t
+//
+,
+string asx //
+,} root packet
+int{  chars @lengthOf(
+    Foo	)
+`a\`,  repeat
+    char[ 0123456789
+]
+    BodyLength , i8 T
+    , @rightPad
+(
+    ) u64 lengthOf	, }
 ")).
-Eval vm_compute in ("<<<M3818>>>" ++ check (runes_of_ascii "packet _x {
+Eval vm_compute in ("<<<M3954>>>" ++ check (runes_of_ascii "
+
+  options {
+
+    int=
+
+""`tick`""
+    ; 
+Foo=
+
+' '
+    ;	Foo
+    = ""x y"" ;  x_y_z =""x y"" 
+//	t
+
+	;  } 
+packet
+
+    uint8x{
+	@lengthOf(
+	int 
+	    // `tick` ""quote"" 'q'
+	// trailing space 
+  )
+@tag(0 )  Pad// `tick` ""quote"" 'q'
+      ,u8
+	x ,  @lengthOf( Z9_ 
+)f32	BodyLength
+
+`crlf
+line` ,
+repeat	char[ 255 
+] f32a,repeat
+
+msg_type	lengthOf , @leftPad
+(
+
+'\x00'
+) repeat
+
+int32  asx  ,	repeat
+    string
+
+f32a 	 //x
+
+  , // `tick` ""quote"" 'q'
+		} MetaData
+packetx { int64  asx
+	,	Foo
+
+    len
+
+`// not a comment` , 
+i32 MetaDataX`" ++ [233]%N ++ runes_of_ascii "`
+	,
+    Foo  Header	`line1
+line2`
+,
+	zchar[
+0123456789]lengthOf
+,
+
+    float32 
+metadata	,
+
+    }")).
+Eval vm_compute in ("<<<M985>>>" ++ check (runes_of_ascii "MetaData
+    i64_
+    {
+    int
+rootA
+/// triple
+// @lengthOf(
+, char[ 0 ]
+    A
+    `{ , }` , u128 rootA`doc`
+, // @lengthOf(
+zchar[//x
+42  ] i8i8`it's` ,
+    /// triple
+    char[ 00	] u , zchar[ 0123456789] A `line1
+line2`	,	}	packet Z9_
+{ @lengthOf(
+pack
+    )
+@calculatedFrom(	""a\\"") BodyLength @calculatedFrom( ""\" ++ [233]%N ++ runes_of_ascii """)
+    , @rightPad ( ) @tag( 1 )@lengthOf(
+    i8i8  )
+    char[]  trueish , f32a
+@calculatedFrom( """ ++ [28040; 24687]%N ++ runes_of_ascii """	) `u8 x,` ,	@tag(
+    /// triple
+    65535 ) string trueish , } packet
+BodyLength
+{ stringy @lengthOf( Z9_ ) ,
+    char[ 007
+]metadata
+@calculatedFrom(
+/// triple
+// @lengthOf(
+"""" )
+`" ++ [233]%N ++ runes_of_ascii "`, }
+")).
+Eval vm_compute in ("<<<M1197>>>" ++ check (runes_of_ascii "options { u8x
+    = // @lengthOf(
+""it's"" x_y_z = //
+42 o
+    = true ;MetaDataX
+='0' ;	}
+MetaData	calculatedFrom { i64 trueish , // " ++ [27880; 37322]%N ++ runes_of_ascii "
+u16 stringy
+    `two words`,u8x
+    repeatCount,int8 matchKey
+    ,} packet MetaDataX {@calculatedFrom( ""\" ++ [233]%N ++ runes_of_ascii """ ) uint8x
+//x
+/// triple
+@lengthOf(
+    /// triple
+    uint8x) ,
+    //	t
+    repeat zchar[ 007 ]	Foo`" ++ [233]%N ++ runes_of_ascii "` , @lengthOf(
+/// triple
+// a // b
+metadata  ) @tag(1 )
+match metadata as BodyLength { 00 :
+tag ,
+""a	b"" :	Packet
+, [ ""abc""]:	pack },
+//	t
+// " ++ [27880; 37322]%N ++ runes_of_ascii "
+}  root packet
+packetx
+    { @leftPad( '\x00'
+)f32a
+@lengthOf( options1 ) , }
+packet MetaDataX
+{ }
+")).
+Eval vm_compute in ("<<<M336>>>" ++ check (runes_of_ascii "root
+packet  lengthOf { @lengthOf(
+    i64_ ) string repeatCount
+    @calculatedFrom( """ ++ [28040; 24687]%N ++ runes_of_ascii """
+)
+    `doc` ,repeat
+char[]	f32a `two words` //x
+, @lengthOf( //x
+i64_) char[]a1 ,//
+match float as	BodyLength	{
+"""" // " ++ [27880; 37322]%N ++ runes_of_ascii "
+:tag , """ ++ [28040; 24687]%N ++ runes_of_ascii """ : roots
+, ""// no comment""
+    :
+A ,
+} , metadata , repeat // `tick` ""quote"" 'q'
+char[
+0123456789 ]
+a1 `a\`, @leftPad (
+    '\x00'
+    )
+    zchar lengthOf ,
+    repeat
+    // a // b
+    char[] calculatedFrom
+    // @lengthOf(
+    , @rightPad( '\x00' ) @rightPad (
+    '\x00' // " ++ [27880; 37322]%N ++ runes_of_ascii "
+)
+    i8
+    BodyLength ,	}
+options{ } options { }
+")).
+Eval vm_compute in ("<<<M316>>>" ++ check (runes_of_ascii "options { falsey
+// " ++ [128512]%N ++ runes_of_ascii " emoji
+// " ++ [27880; 37322]%N ++ runes_of_ascii "
+= ""abc""; roots = // c
+'0'	;MetaDataX
+=
+// " ++ [128512]%N ++ runes_of_ascii " emoji
+// " ++ [128512]%N ++ runes_of_ascii " emoji
+'0' ; //
+crc= // " ++ [128512]%N ++ runes_of_ascii " emoji
+42 // a // b
+x	= '0'
+; } packet A {  repeat uint64 u128 , @tag(
+65535) int16
+options1
+    `line1
+line2` , } options { // packet A { u8 x, }
+int
+=
+""// no comment""msg_type  = zchar[ 0123456789
+    /// triple
+    ] ; calculatedFrom =// @lengthOf(
+u8	;
+    asx=
+""" ++ [28040; 24687]%N ++ runes_of_ascii """ ; body = 10 } options { charz = true	metadata = char[]
+; Packet// c
+=  true}
+packet Logon
+{
+@calculatedFrom( """ ++ [128512]%N ++ runes_of_ascii """ )
+    repeat packetx rootA,}
+
+")).
+Eval vm_compute in ("<<<M126>>>" ++ check (runes_of_ascii "root packet pack { @calculatedFrom(	""`tick`"")
+    @calculatedFrom(
+    // " ++ [128512]%N ++ runes_of_ascii " emoji
+    ""\n"" ) @tag( 0123456789 )match zchar as string_ {	[ ""packet"" ] //
+:  i8i8 , [
+0123456789 , 7	] :string_ ,
+//x
+// `tick` ""quote"" 'q'
+0 : options1 ,
+""\" ++ [233]%N ++ runes_of_ascii """
+:// `tick` ""quote"" 'q'
+Foo	,}
+, @lengthOf(	calculatedFrom )
+Foo	@lengthOf(
+    x)
+`crlf
+line`
+, lengthOf @lengthOf(int )  ,T , @lengthOf(  rootA) zchar[
+007 ]
+// " ++ [128512]%N ++ runes_of_ascii " emoji
+// packet A { u8 x, }
+x`crlf
+line` , @calculatedFrom(
+    ""\n""	) repeat f64	chars
+, matchKey _x, }")).
+Eval vm_compute in ("<<<M603>>>" ++ check (runes_of_ascii "// trailing space 
+packet packetx { leftPad//
+{ repeat msg_type // @lengthOf(
+charz , char a1 @lengthOf( stringy )`` , repeat int16
+//x
+/// triple
+u8x , int64
+u
+// packet A { u8 x, }
+//	t
+`" ++ [28040; 24687; 31867; 22411]%N ++ runes_of_ascii "`  ,
+} , // trailing space 
+@tag( 0 ) match Packet
+    as u8x{
+007 : u8x [0123456789,	""x y"" ]: u128 , 007 : // packet A { u8 x, }
+u 65535	:o
+,7
+: u, }// @lengthOf(
+,
+    } // `tick` ""quote"" 'q'
+root// " ++ [27880; 37322]%N ++ runes_of_ascii "
+packet trueish { char[ 0  ] Logon ,@tag(
+00 ) u32
+    x_y_z @lengthOf( options1 ) , }
+")).
+Eval vm_compute in ("<<<M717>>>" ++ check (runes_of_ascii "packet// `tick` ""quote"" 'q'
+A{ match packetx as As {	007 :body , [255
+    ,
+""\" ++ [233]%N ++ runes_of_ascii """,
+65535 ,""a	b"" ]: float[255 , ""a\""b"" ]
+:
+i64_  } , @calculatedFrom( ""\" ++ [233]%N ++ runes_of_ascii """ ) @calculatedFrom(
+""CRC32""
+)//
+Z9_@calculatedFrom( ""it's"" ) `
+` ,} MetaData calculatedFrom
+{
+    i16 len // c
+, zchar[
+    42
+    ]
+    A
+`{ , }`
+,string tag `doc` ,float
+    matchKey,
+char[ 7
+    ] len `
+` ,
+// `tick` ""quote"" 'q'
+//
+}root packet int {
+@lengthOf(
+int)  i8  u @lengthOf(len ),
+} options { }
+")).
+Eval vm_compute in ("<<<M820>>>" ++ check (runes_of_ascii "MetaData uint8x
+{ stringy charz ,	char[ 00] Z9_
+    //
+    `{ , }`
+// @lengthOf(
+// a // b
+, char[ 0123456789 ]charz	, } packet msg_type{repeat char[ 42 ]	trueish `// not a comment` ,	@lengthOf( A
+//
+//
+) zchar[ 4294967296//x
+]string_
+// " ++ [27880; 37322]%N ++ runes_of_ascii "
+//x
+,
+//x
+// @lengthOf(
+repeat MetaDataX `// not a comment`,  }
+    packet A{ As{ char[4294967296]
+// c
+// packet A { u8 x, }
+zchar @lengthOf( Foo ) `a\`,
+// trailing space 
+// packet A { u8 x, }
+}
+,  }
+")).
+Eval vm_compute in ("<<<M43>>>" ++ check (runes_of_ascii "
+packet A
+{ repeat lengthOf {
+len ,
+    } , @tag(// trailing space 
+42	) match Header
+    as falsey
+{ [
+""" ++ [128512]%N ++ runes_of_ascii """//
+, ""\n"", 4294967296 ]
+    : Packet
+1 :	falsey,
+""\" ++ [233]%N ++ runes_of_ascii """ // " ++ [128512]%N ++ runes_of_ascii " emoji
+:
+    charz } , zchar[255
+]
+// packet A { u8 x, }
+// trailing space 
+rootA , repeat  char[ 10 ]// `tick` ""quote"" 'q'
+f32a
+// trailing space 
+//x
+,@calculatedFrom(  ""// no comment"") char[ 00 ]trueish@calculatedFrom(
+    // " ++ [27880; 37322]%N ++ runes_of_ascii "
+    ""a\""b"" )`line1
+line2` ,}")).
+Eval vm_compute in ("<<<M981>>>" ++ check (runes_of_ascii "packet msg_type { uint32// a // b
+i8i8 `say ""hi""` ,
+match packetx	as  asx
+    {
+0123456789:
+    msg_type ,
+    1
+    :
+    _x } ,
+repeat As	{ f32 body ,string msg_type
+, f64
+    roots
+//
+// " ++ [27880; 37322]%N ++ runes_of_ascii "
+, }
+    // `tick` ""quote"" 'q'
+    ,
+char[] options1`say ""hi""`  ,	}	options { msg_type = true ;} packet	crc{
+asx x_y_z , } MetaData T {T	i8i8
+, int16
+zchar
+,int tag
+,
+    string x_y_z`
+` ,
+    float32
+metadata , }
+")).
+Eval vm_compute in ("<<<M971>>>" ++ check (runes_of_ascii "packet A { tag T
+`u8 x,`
+//
+// `tick` ""quote"" 'q'
+, @calculatedFrom( ""a\\"" )match Header as charz
+    {
+    1 : Z9_ , 65535 :  falsey ,
+    // " ++ [128512]%N ++ runes_of_ascii " emoji
+    ""it's"" :
+trueish ,
+    ""x y"": stringy ,
+""x y"" :
+falsey ,  } ,
+float uint8x  , } options {trueish =
+    char[] ;}
+    MetaData
+i64_ { stringy
+roots
+`a\` ,	zchar[ 4294967296 ] repeatCount , }
+MetaData body {  u8x
+    int
+, a1 f32a , }
+")).
+Eval vm_compute in ("<<<M424>>>" ++ check (runes_of_ascii "root	packet x { f64 trueish @calculatedFrom(""" ++ [28040; 24687]%N ++ runes_of_ascii """ )
+, @calculatedFrom(
+    ""a	b""
+)  zchar[ 00	]
+lengthOf , char[] roots
+`tab	here`	, @leftPad ( '\x00'
+    ) char[]
+body ,
+    // " ++ [27880; 37322]%N ++ runes_of_ascii "
+    Header {
+string
+    _x
+, i32 falsey ,repeat uint8 Packet , //	t
+float32 leftPad
+    @lengthOf( u )
+`a\` , },
+int32 // " ++ [27880; 37322]%N ++ runes_of_ascii "
+chars , @calculatedFrom(""\n"" ) repeat// c
+u32 roots
+    ,  o `` , }")).
+Eval vm_compute in ("<<<M4501>>>" ++ check (runes_of_ascii "root packet MetaDataX {
+    @leftPad('\x00')
+    i8i8 @lengthOf(charz),
+    repeat u8x `crlf
+    line`,
+    zchar `line1
+    line2`,
+    @lengthOf(stringy)
+    repeat char[00] packetx,
+}
+
+/// triple
+root packet charz {
+    match repeatCount as float {
+        //	t
+        0123456789 : Packet,
+    },
+    string x_y_z @calculatedFrom(""\n""),
+}
+
+options {
+}")).
+Eval vm_compute in ("<<<M3653>>>" ++ check (runes_of_ascii "options {
+    FixedStringPadFromLeft = true;
+    FixedStringPadChar = ' ';
+}
+packet Reject {
+}
+packet Fill {
+    repeat i16 Tail,
+}
+root packet Trade {
+    float64 Ref,
+    Fill,
+    u8 Note,
+    u16 count @lengthOf(Body),
+    match Note as Body {
+        [98, 101] : Fill,
+        34 : Reject,
+    },
+    u32 x @calculatedFrom(""CRC32""),
+}
+")).
+Eval vm_compute in ("<<<M517>>>" ++ check (runes_of_ascii "root
+packet Header {@calculatedFrom(
+""a\""b"" ) o MetaDataX
+`{ , }`	, float  , repeat u8
+    string_ , repeat a1 {
+    repeat
+zchar[ 3 /// triple
+] a1 , repeat  Foo// " ++ [27880; 37322]%N ++ runes_of_ascii "
+u ,} ,
+} MetaData uint8x { } MetaData
+    int
+    {
+    zchar[ 4294967296 ]roots
+,
+}
+MetaData i64_ { zchar[/// triple
+1
+]
+    falsey `// not a comment` , }
+")).
+Eval vm_compute in ("<<<M1958>>>" ++ check (runes_of_ascii "MetaData
+    u { }  options {
+// c
+// @lengthOf(
+float = int8 ;rootA =false ; As =	int16 // `tick` ""quote"" 'q'
+repeatCount
+    // trailing space 
+    =
+    int16
+packet u8x =
+    //	t
+    '\x00' ; } options	{
+    repeatCount
+= 0
+u128
+    //
+    = false ; i64_
+// trailing space 
+// `tick` ""quote"" 'q'
+= '0' ; //	t
+}
+")).
+Eval vm_compute in ("<<<M1911>>>" ++ check (runes_of_ascii "MetaData
+    u { }  options {
+// c
+// @lengthOf(
+float = int8 ;rootA = =false ; As =	int16 // `tick` ""quote"" 'q'
+repeatCount
+    // trailing space 
+    =
+    int16
+; u8x =
+    //	t
+    '\x00' ; } options	{
+    repeatCount
+= 0
+u128
+    //
+    = false ; i64_
+// trailing space 
+// `tick` ""quote"" 'q'
+= '0' ; //	t
+}
+")).
+Eval vm_compute in ("<<<M2013>>>" ++ check (runes_of_ascii "MetaData
+    u { }  options {
+// c
+// @lengthOf(
+float = int8 ;rootA =false ; As =	int16 // `tick` ""quote"" 'q'
+repeatCount
+    // trailing space 
+    =
+    int16
+; u8x =
+    //	t
+    '\x00' ; } options	{
+    repeatCount
+= 0
+false
+    //
+    = false ; i64_
+// trailing space 
+// `tick` ""quote"" 'q'
+= '0' ; //	t
+}
+")).
+Eval vm_compute in ("<<<M1957>>>" ++ check (runes_of_ascii "MetaData
+    u { }  options {
+// c
+// @lengthOf(
+float = int8 ;rootA =false ; As =	int16 // `tick` ""quote"" 'q'
+repeatCount
+    // trailing space 
+    =
+    int16
+u8x ; =
+    //	t
+    '\x00' ; } options	{
+    repeatCount
+= 0
+u128
+    //
+    = false ; i64_
+// trailing space 
+// `tick` ""quote"" 'q'
+= '0' ; //	t
+}
+")).
+Eval vm_compute in ("<<<M1890>>>" ++ check (runes_of_ascii "MetaData
+    u { }  options {
+// c
+// @lengthOf(
+float  int8 ;rootA =false ; As =	int16 // `tick` ""quote"" 'q'
+repeatCount
+    // trailing space 
+    =
+    int16
+; u8x =
+    //	t
+    '\x00' ; } options	{
+    repeatCount
+= 0
+u128
+    //
+    = false ; i64_
+// trailing space 
+// `tick` ""quote"" 'q'
+= '0' ; //	t
+}
+")).
+Eval vm_compute in ("<<<M1895>>>" ++ check (runes_of_ascii "MetaData
+    u { }  options {
+// c
+// @lengthOf(
+float =  ;rootA =false ; As =	int16 // `tick` ""quote"" 'q'
+repeatCount
+    // trailing space 
+    =
+    int16
+; u8x =
+    //	t
+    '\x00' ; } options	{
+    repeatCount
+= 0
+u128
+    //
+    = false ; i64_
+// trailing space 
+// `tick` ""quote"" 'q'
+= '0' ; //	t
+}
+")).
+Eval vm_compute in ("<<<M2049>>>" ++ check (runes_of_ascii "MetaData
+    u { }  options {
+// c
+// @lengthOf(
+float = int8 ;rootA =false ; As =	int16 // `tick` ""quote"" 'q'
+repeatCount
+    // trailing space 
+    =
+    int16
+; u8x =
+    //	t
+    '\x00' ; } options	{
+    repeatCount
+= 0
+u128
+    //
+    = false ; i64_
+// trailing space 
+// `tick` ""quote"" 'q'
+= '0'")).
+Eval vm_compute in ("<<<M3999>>>" ++ check (runes_of_ascii "// top
+options {
+    // c1
+    charz = f64;
+    // c5
+    metadata = 7;
+    // c9
+}
+
+// c10
+options {
+    // c12
+    u128 = 10
+    // c15
+    options1 = true;
+    // c19
+    zchar = uint16;
+    // c23
+    lengthOf = true;
+    // c27
+}
+
+// c28
+options {
+    // c30
+    len = 1
+    // c33
+}
+// c34")).
+Eval vm_compute in ("<<<M1020>>>" ++ check (runes_of_ascii "root
+packet BodyLength { match tag as
+float  {10 ://x
+a1, }
+,char[255 ] Z9_	`" ++ [28040; 24687; 31867; 22411]%N ++ runes_of_ascii "`
+    , // @lengthOf(
+@calculatedFrom( ""packet""	) int64 packetx @calculatedFrom( ""{,}"" // @lengthOf(
+)
+`doc`	, }packet
+    x
+{	} packet
+    roots
+// " ++ [27880; 37322]%N ++ runes_of_ascii "
+//	t
+{
+    @tag( 0)repeat
+    chars `doc` , }
+")).
+Eval vm_compute in ("<<<M1040>>>" ++ check (runes_of_ascii "packet
+string_ {zchar[// " ++ [128512]%N ++ runes_of_ascii " emoji
+255]chars
+@lengthOf( leftPad)
+, } options
+    { repeatCount= true ;msg_type // c
+=  ' '
+    ;
+rootA = true
+;}
+root packet len//	t
+{ zchar[  7 ]
+BodyLength@calculatedFrom( """ ++ [128512]%N ++ runes_of_ascii """ ) ,
+    }MetaData
+    charz{ string Packet, /// triple
+}
+")).
+Eval vm_compute in ("<<<M4220>>>" ++ check (runes_of_ascii "  /// triple
+
+packet  trueish
+    {	// packet A { u8 x, }
+	  repeat int	`crlf
+line`
+,
+repeat int32 // c
+    o , 
+}
+
+    packet 
+string_	{
+
+T
+    Logon	,
+i64_ ,
+
+string_ ,	char[ 10 
+]zchar @lengthOf(
+
+    u128 	 /// triple
+      ) `say ""hi""`
+
+    ,
+	}
+")).
+Eval vm_compute in ("<<<M1528>>>" ++ check (runes_of_ascii "packet
+//	t
+// trailing space 
+_x {
+// packet A { u8 x, }
+// c
+char[
+3
+    ] u8x @lengthOf(
+u8x u8x ) , @calculatedFrom(""" ++ [128512]%N ++ runes_of_ascii """ // @lengthOf(
+)
+i16	Foo
+@lengthOf(	string_
+    )`doc`	, repeat	i64 metadata , @lengthOf( string_
+) i8 // c
+u  `line1
+line2`	,
+}
+")).
+Eval vm_compute in ("<<<M1643>>>" ++ check (runes_of_ascii "packet
+//	t
+// trailing space 
+_x {
+// packet A { u8 x, }
+// c
+char[
+3
+    ] u8x @lengthOf(
+u8x ) , @calculatedFrom(""" ++ [128512]%N ++ runes_of_ascii """ // @lengthOf(
+)
+i16	Foo
+@lengthOf(	string_
+    )`doc`	, repeat	i64 metadata , @lengthOf( string_
+) i8 // c
+u  `line1
+line2`	, ,
+}
+")).
+Eval vm_compute in ("<<<M1510>>>" ++ check (runes_of_ascii "packet
+//	t
+// trailing space 
+_x {
+// packet A { u8 x, }
+// c
+char[
+{
+    ] u8x @lengthOf(
+u8x ) , @calculatedFrom(""" ++ [128512]%N ++ runes_of_ascii """ // @lengthOf(
+)
+i16	Foo
+@lengthOf(	string_
+    )`doc`	, repeat	i64 metadata , @lengthOf( string_
+) i8 // c
+u  `line1
+line2`	,
+}
+")).
+Eval vm_compute in ("<<<M2034>>>" ++ check (runes_of_ascii "MetaData
+    u { }  options {
+// c
+// @lengthOf(
+float = int8 ;rootA =false ; As =	int16 // `tick` ""quote"" 'q'
+repeatCount
+    // trailing space 
+    =
+    int16
+; u8x =
+    //	t
+    '\x00' ; } options	{
+    repeatCount
+= 0
+u128
+    //
+    = false ;")).
+Eval vm_compute in ("<<<M1597>>>" ++ check (runes_of_ascii "packet
+//	t
+// trailing space 
+_x {
+// packet A { u8 x, }
+// c
+char[
+3
+    ] u8x @lengthOf(
+u8x ) , @calculatedFrom(""" ++ [128512]%N ++ runes_of_ascii """ // @lengthOf(
+)
+i16	Foo
+@lengthOf(	string_
+    )`doc`	, repeat	 metadata , @lengthOf( string_
+) i8 // c
+u  `line1
+line2`	,
+}
+")).
+Eval vm_compute in ("<<<M1567>>>" ++ check (runes_of_ascii "packet
+//	t
+// trailing space 
+_x {
+// packet A { u8 x, }
+// c
+char[
+3
+    ] u8x @lengthOf(
+u8x ) , @calculatedFrom(""" ++ [128512]%N ++ runes_of_ascii """ // @lengthOf(
+)
+i16	Foo
+	string_
+    )`doc`	, repeat	i64 metadata , @lengthOf( string_
+) i8 // c
+u  `line1
+line2`	,
+}
+")).
+Eval vm_compute in ("<<<M3894>>>" ++ check (runes_of_ascii "options  {
+
+    As
+=
+""1""	;
+    matchKey =
+0123456789	options1 =
+0123456789
+	; // a // b
+	asx	// c
+
+  =  ""CRC32""
+;  tag
+
+= 00
+
+    ; }// trailing space 
+	packet  matchKey {
+
+@calculatedFrom(
+    ""abc"")int32  repeatCount, } ")).
+Eval vm_compute in ("<<<M1206>>>" ++ check (runes_of_ascii "packet body { As
+    @lengthOf(	string_ ) `two words`	, zchar[ 10 ] i8i8@calculatedFrom( ""`tick`""),
+zchar[ 0 ]
+    pack
+@calculatedFrom(
+""x y"" ) ,uint8 rootA @calculatedFrom( ""a\\""), i32
+    msg_type ,
+    u8 repeatCount ,}")).
+Eval vm_compute in ("<<<M4130>>>" ++ check (runes_of_ascii "packet _x {
     // packet A { u8 x, }
     // c
     char[3] u8x @lengthOf(u8x),
     @calculatedFrom(""" ++ [128512]%N ++ runes_of_ascii """)
-    Foo @lengthOf(string_) `doc`,
+    i16 Foo @lengthOf(string_),
     repeat i64 metadata,
     @lengthOf(string_)
     i8 u `line1
         line2`,
 }")).
-Eval vm_compute in ("<<<M1702>>>" ++ check (runes_of_ascii "options { trueish = ""`tick`"" ; string_ string_= """ ++ [233]%N ++ runes_of_ascii "t" ++ [233]%N ++ runes_of_ascii """
+Eval vm_compute in ("<<<M1682>>>" ++ check (runes_of_ascii "options { trueish trueish = ""`tick`"" ; string_= """ ++ [233]%N ++ runes_of_ascii "t" ++ [233]%N ++ runes_of_ascii """
     // c
     } root
     packet body { stringy @calculatedFrom(
@@ -2218,16 +2023,17 @@ packet Logon {
 u16 string_ `u8 x,` ,
 }
 ")).
-Eval vm_compute in ("<<<M79>>>" ++ check (runes_of_ascii "root packet Foo {i16 BodyLength `// not a comment`
+Eval vm_compute in ("<<<M1845>>>" ++ check (runes_of_ascii "options { trueish = ""`tick`"" ; string_= """ ++ [233]%N ++ runes_of_ascii "t" ++ [233]%N ++ runes_of_ascii """
     // c
-    ,
-    //x
-    }options { // packet A { u8 x, }
-} options
-    {Z9_ = // trailing space 
-false msg_type //
-=
-true f32a = ' ' zchar  =""`tick`"";}
+    } root
+    packet body { stringy @calculatedFrom(
+""a	b"" ) `line1
+line2` , }
+packet Logon {
+    @leftPad(
+    ' ' @tag ) //	t
+u16 string_ `u8 x,` ,
+}
 ")).
 Eval vm_compute in ("<<<M1841>>>" ++ check (runes_of_ascii "options { trueish = ""`tick`"" ; string_= " ++ [233]%N ++ runes_of_ascii " """ ++ [233]%N ++ runes_of_ascii "t" ++ [233]%N ++ runes_of_ascii """
     // c
@@ -2253,17 +2059,16 @@ packet Logon {
 u16 string_ `u8 x,` ,
 }
 ")).
-Eval vm_compute in ("<<<M1349>>>" ++ check (runes_of_ascii "
-root
-    packet x_y_z{@lengthOf( _x ) _x  @lengthOf( trueish)	,} packet
-    BodyLength {// packet A { u8 x, }
-}
-    // " ++ [128512]%N ++ runes_of_ascii " emoji
-    MetaData // @lengthOf(
-a1 { Pad
-    repeatCount	,i16 zchar `` ,//	t
-}")).
-Eval vm_compute in ("<<<M3817>>>" ++ check (runes_of_ascii "// @lengthOf(
+Eval vm_compute in ("<<<M1149>>>" ++ check (runes_of_ascii "MetaData // packet A { u8 x, }
+lengthOf
+{ msg_type
+// `tick` ""quote"" 'q'
+// " ++ [128512]%N ++ runes_of_ascii " emoji
+metadata , float32 matchKey`" ++ [28040; 24687; 31867; 22411]%N ++ runes_of_ascii "`//
+,
+int32 body , zchar[ 0123456789
+    ] uint8x  , float32 int , int16 body , } //	t")).
+Eval vm_compute in ("<<<M4578>>>" ++ check (runes_of_ascii "// @lengthOf(
 options {
 }// c
 
@@ -2279,30 +2084,43 @@ options {
     packetx = 1;
     As = true
 }")).
-Eval vm_compute in ("<<<M1691>>>" ++ check (runes_of_ascii "options { trueish =  ; string_= """ ++ [233]%N ++ runes_of_ascii "t" ++ [233]%N ++ runes_of_ascii """
-    // c
-    } root
-    packet body { stringy @calculatedFrom(
-""a	b"" ) `line1
-line2` , }
-packet Logon {
-    @leftPad(
-    ' ' ) //	t
-u16 string_ `u8 x,` ,
-}
+Eval vm_compute in ("<<<M3534>>>" ++ check (runes_of_ascii "// top
+packet // c0
+Inner
+    // c1
+{ u8 a , // c5
+} root packet // c8
+P
+    // c9
+{ // c10
+Inner
+    // c11
+ref_obj // c12
+, // c13a
+  // c13b
+u8 // c14
+x
+    // c15
+, // c16a
+  // c16b
+} // c17
 ")).
-Eval vm_compute in ("<<<M1979>>>" ++ check (runes_of_ascii "MetaData
-    u { }  options {
-// c
-// @lengthOf(
-float = int8 ;rootA =false ; As =	int16 // `tick` ""quote"" 'q'
-repeatCount
-    // trailing space 
-    =
-    int16
-; u8x =
-    //	t
-    '\x00'")).
+Eval vm_compute in ("<<<M4026>>>" ++ check (runes_of_ascii "options {
+    FixedStringPadChar = '0';
+}
+
+packet Q {
+    zchar[4] z,
+    @rightPad('\x00')
+    char[3] n,
+    char[5] d,
+}
+
+root packet R {
+    Q,
+    zchar[8] top,
+    repeat zchar[2] zs,
+}")).
 Eval vm_compute in ("<<<M3565>>>" ++ check (runes_of_ascii "// top
 root
     // c0
@@ -2322,116 +2140,73 @@ u32 Sum // c8
 }
     // c13
 ")).
-Eval vm_compute in ("<<<M545>>>" ++ check (runes_of_ascii "root packet Z9_ { repeatCount
-    `a\`
-,char[ 255 ]Pad`" ++ [28040; 24687; 31867; 22411]%N ++ runes_of_ascii "`
-    // " ++ [27880; 37322]%N ++ runes_of_ascii "
-    ,  char[ // c
-0
-] calculatedFrom `it's` , MetaDataX msg_type`line1
-line2`, }
-// packet A { u8 x, }
-")).
-Eval vm_compute in ("<<<M329>>>" ++ check (runes_of_ascii "packet
-pack
-    { pack calculatedFrom, len, u16	T,
-@lengthOf( trueish) repeat
-leftPad ,
-@calculatedFrom( """ ++ [233]%N ++ runes_of_ascii "t" ++ [233]%N ++ runes_of_ascii """	) @rightPad	( '0' ) f64 a1,repeat
-trueish Header , } 	 ")).
-Eval vm_compute in ("<<<M3556>>>" ++ check (runes_of_ascii "
-options {
-	LittleEndian
+Eval vm_compute in ("<<<M4138>>>" ++ check (runes_of_ascii "options {
+    packetx = ' '
+}
 
-    =true ;}  packet
-    B
-	{u8
-	a
-,string
-
-    s  , }
-root
-
-    packet
-
-    P
-	{ u16
-L@lengthOf(
-B )
-
-    , B , u8 t  , 
+root packet i64_ {
+    string Foo,
+    @tag(3)
+    u128 @calculatedFrom(""\" ++ [233]%N ++ runes_of_ascii """) `
+    `,
+    repeat char[00] Logon,
+    repeat crc lengthOf `a\`,
 }")).
-Eval vm_compute in ("<<<M4287>>>" ++ check (runes_of_ascii "//x
-  options
-	{ pack =
-
-""{,}"" ;
-asx
-	= 65535
-    ;  u	=
-    zchar[
-	007  ]  ;
-    // trailing space 
-    i8i8
-=char[]As  //x
-  	=' '
-} 	 // packet A { u8 x, }
-")).
-Eval vm_compute in ("<<<M2366>>>" ++ check (runes_of_ascii "// c
-packet x { @lengthOf( metadata ) repeat lengthOf
-,a1 a1{
-trueish	,// c
-repeat//	t
-MetaDataX , } , zchar[
-    42	] rootA // `tick` ""quote"" 'q'
-,
-    }
-")).
-Eval vm_compute in ("<<<M2313>>>" ++ check (runes_of_ascii "// c
-packet x { @lengthOf( metadata ) repeat lengthOf
-,a1{
-trueish	,// c
-repeat//	t
-MetaDataX , } , zchar[
-    42	] rootA // `tick` ""quote"" 'q'
-,
-" ++ [8232]%N ++ runes_of_ascii "    }
-")).
-Eval vm_compute in ("<<<M2331>>>" ++ check (runes_of_ascii "// c
-x packet { @lengthOf( metadata ) repeat lengthOf
-,a1{
-trueish	,// c
-repeat//	t
-MetaDataX , } , zchar[
-    42	] rootA // `tick` ""quote"" 'q'
-,
-    }
-")).
-Eval vm_compute in ("<<<M2341>>>" ++ check (runes_of_ascii "// c
-packet x { @lengthOf( metadata ) repeat lengthOf
-,a1{
-trueish	,// c
-repeat//	t
-MetaDataX , } , zchar[
-    42	] rootA // `tick` ""quote"" 'q'
-
-    }
-")).
-Eval vm_compute in ("<<<M2166>>>" ++ check (runes_of_ascii "options{
+Eval vm_compute in ("<<<M1586>>>" ++ check (runes_of_ascii "packet
+//	t
+// trailing space 
+_x {
+// packet A { u8 x, }
+// c
+char[
+3
+    ] u8x @lengthOf(
+u8x ) , @calculatedFrom(""" ++ [128512]%N ++ runes_of_ascii """ // @lengthOf(
+)
+i16	Foo
+@lengthOf(	string_
+    )")).
+Eval vm_compute in ("<<<M4350>>>" ++ check (runes_of_ascii "root packet Header {
+    match leftPad as Foo {
+        // c
+        7 : o,
+        0 : u8x,
+        65535 : leftPad,
+        00 : asx,
+        ""it's"" : o,
+    },
+}")).
+Eval vm_compute in ("<<<M1016>>>" ++ check (runes_of_ascii "packet // c
+Pad
+{@calculatedFrom( ""1"" ) pack//
+leftPad `doc` ,char[ /// triple
+007 ] i8i8 @calculatedFrom( ""// no comment""  ),	} options//
+{
+pack  = '\x00';  }")).
+Eval vm_compute in ("<<<M2155>>>" ++ check (runes_of_ascii "options{
 _x
 = true
 } options
 { o	= /// triple
 false
     ; chars
-= ""\n"" } root packet	{
+= ""\n"" } root root packet	Pad
 /// triple
 // packet A { u8 x, }
-Pad	chars
+{	chars
     // a // b
     ,}")).
-Eval vm_compute in ("<<<M2084>>>" ++ check (runes_of_ascii "options{
-
+Eval vm_compute in ("<<<M3845>>>" ++ check (runes_of_ascii "root packet Foo {
+    int32 tag `doc`,
+    char[0] u8x `u8 x,`,
+    charz charz,
+    @rightPad(' ')
+    @tag(3)
+    @rightPad('0')
+    repeat int16 float,
+}")).
+Eval vm_compute in ("<<<M2197>>>" ++ check (runes_of_ascii "options{
+_x
 = true
 } options
 { o	= /// triple
@@ -2442,49 +2217,198 @@ false
 // packet A { u8 x, }
 {	chars
     // a // b
+    ," ++ [233]%N ++ runes_of_ascii " }")).
+Eval vm_compute in ("<<<M2198>>>" ++ check (runes_of_ascii "options{
+_x
+= true
+} options
+{ o	= /// triple
+f" ++ [233]%N ++ runes_of_ascii "alse
+    ; chars
+= ""\n"" } root packet	Pad
+/// triple
+// packet A { u8 x, }
+{	chars
+    // a // b
     ,}")).
-Eval vm_compute in ("<<<M4483>>>" ++ check (runes_of_ascii "options{ LittleEndian =  true ; } packet B
-    {	u8
-	a
+Eval vm_compute in ("<<<M2136>>>" ++ check (runes_of_ascii "options{
+_x
+= true
+} options
+{ o	= /// triple
+false
+    ; =
+chars ""\n"" } root packet	Pad
+/// triple
+// packet A { u8 x, }
+{	chars
+    // a // b
+    ,}")).
+Eval vm_compute in ("<<<M2157>>>" ++ check (runes_of_ascii "options{
+_x
+= true
+} options
+{ o	= /// triple
+false
+    ; chars
+= ""\n"" } '0' packet	Pad
+/// triple
+// packet A { u8 x, }
+{	chars
+    // a // b
+    ,}")).
+Eval vm_compute in ("<<<M140>>>" ++ check (runes_of_ascii "packet Logon {
+    stringy
+crc	`crlf
+line`
+, T
+@calculatedFrom( ""a\""b""
+    ) // packet A { u8 x, }
+`u8 x,` // " ++ [27880; 37322]%N ++ runes_of_ascii "
+, }  options {	leftPad =  '\x00'}
+")).
+Eval vm_compute in ("<<<M4405>>>" ++ check (runes_of_ascii "packet A
+
+{match k  as
+
+    n{ 
+[  ""a"",	""bb""
+
     ,
-string	s , } 
-root	packet
-P
-{
-	u16
-L
+""c c""
+    , ""d""
+, ""e""
+    ,""f""
+	,
 
-@lengthOf(
+    ""g""
 
-    B
-)
+, ""h"" , ""i"" ]: B
+, 2
 
-    ,B , u8
-
-t  ,
-	}
+    : C }
+    ,
+}
 
 ")).
-Eval vm_compute in ("<<<M2411>>>" ++ check (runes_of_ascii "// c
-packet x { @lengthOf( metadata ) repeat lengthOf
-,a1{
-trueish	,// c
-repeat//	t
- , } , zchar[
-    42	] rootA // `tick` ""quote"" 'q'
-,
-    }
-")).
-Eval vm_compute in ("<<<M4429>>>" ++ check (runes_of_ascii "packet A {
+Eval vm_compute in ("<<<M862>>>" ++ check (runes_of_ascii "MetaData
+trueish { o charz `tab	here`	,}  MetaData int {zchar[	4294967296  ] a1 `say ""hi""` ,
+}	options { charz
+    //	t
+    =	'0'  tag	=""abc""}")).
+Eval vm_compute in ("<<<M3759>>>" ++ check (runes_of_ascii "packet A {
     match k as n {
         [
-            007, 66, ""a"", ""bb"", ""d"",
-            ""e"", ""g"", ""h""
+            1, 22, ""c c"", 4, 5,
+            ""f"", 7, 8, ""i""
         ] : B,
         2 : C,
     },
 }")).
-Eval vm_compute in ("<<<M1561>>>" ++ check (runes_of_ascii "packet
+Eval vm_compute in ("<<<M4351>>>" ++ check (runes_of_ascii "root packet metadata 	 // " ++ [128512]%N ++ runes_of_ascii " emoji
+    {
+
+    }
+
+packet // c
+      u
+
+    {@leftPad  ( ) repeat 
+char[
+
+4294967296	]A  `a\`  ,
+}")).
+Eval vm_compute in ("<<<M1423>>>" ++ check (runes_of_ascii "
+packet
+    falsey { Header@calculatedFrom(""packet"" ""packet""  ) , char[
+    0123456789 ] packetx
+    , } // `tick` ""quote"" 'q'")).
+Eval vm_compute in ("<<<M1438>>>" ++ check (runes_of_ascii "
+packet
+    falsey { Header@calculatedFrom(""packet""  ) , char[ char[
+    0123456789 ] packetx
+    , } // `tick` ""quote"" 'q'")).
+Eval vm_compute in ("<<<M3318>>>" ++ check (runes_of_ascii "root packet matchKey { // c
+zchar[ 3 ] pack @calculatedFrom( ""a	b"" ) `doc` , } options { } MetaData A { int8 msg_type , }")).
+Eval vm_compute in ("<<<M3350>>>" ++ check (runes_of_ascii "root packet matchKey { zchar[ 3 ] pack @calculatedFrom( ""a	b"" ) `doc` , } options { } MetaData A { // c
+int8 msg_type , }")).
+Eval vm_compute in ("<<<M4454>>>" ++ check (runes_of_ascii "packet Logon {
+    f32 _x,
+}
+
+MetaData u8x {
+    float32 leftPad,
+    tag leftPad `say ""hi""`,
+    i16 tag `say ""hi""`,
+}")).
+Eval vm_compute in ("<<<M1430>>>" ++ check (runes_of_ascii "
+packet
+    falsey { Header@calculatedFrom(""packet""  ] , char[
+    0123456789 ] packetx
+    , } // `tick` ""quote"" 'q'")).
+Eval vm_compute in ("<<<M4198>>>" ++ check (runes_of_ascii "MetaData u {
+    BodyLength repeatCount,
+}
+
+options {
+    string_ = false;
+    i8i8 = 10;
+}
+
+root packet float {
+}//")).
+Eval vm_compute in ("<<<M1398>>>" ++ check (runes_of_ascii "
+
+    falsey { Header@calculatedFrom(""packet""  ) , char[
+    0123456789 ] packetx
+    , } // `tick` ""quote"" 'q'")).
+Eval vm_compute in ("<<<M466>>>" ++ check (runes_of_ascii "/// triple
+MetaData	asx { roots x_y_z ,
+calculatedFrom o ,
+}
+packet pack { roots
+    // @lengthOf(
+    , }
+")).
+Eval vm_compute in ("<<<M48>>>" ++ check (runes_of_ascii "  options { zchar =  007
+Header =
+char[// c
+007 ] ;
+    lengthOf= char[
+7 ]; chars =//
+"""" // a // b
+;
+}
+")).
+Eval vm_compute in ("<<<M205>>>" ++ check (runes_of_ascii "  root packet// " ++ [128512]%N ++ runes_of_ascii " emoji
+o
+    {
+    @calculatedFrom( ""a\""b"" //x
+) repeat crc ,	@tag( 10  )
+x_y_z, }
+")).
+Eval vm_compute in ("<<<M1467>>>" ++ check (runes_of_ascii "
+packet
+    falsey { Header@calculatedFrom(""packet""  ) , char[
+    0123456789 ] packetx
+    , } // `")).
+Eval vm_compute in ("<<<M4372>>>" ++ check (runes_of_ascii "
+
+  packet	A
+	{  match
+	k
+
+as  n { [  // a
+  1 	 // b
+    ,	// c
+      2
+
+    ]// d
+	: 
+B}
+
+,}")).
+Eval vm_compute in ("<<<M1536>>>" ++ check (runes_of_ascii "packet
 //	t
 // trailing space 
 _x {
@@ -2493,185 +2417,74 @@ _x {
 char[
 3
     ] u8x @lengthOf(
-u8x ) , @calculatedFrom(""" ++ [128512]%N ++ runes_of_ascii """ // @lengthOf(
-)")).
-Eval vm_compute in ("<<<M670>>>" ++ check (runes_of_ascii "//	t
-MetaData asx
-{
-zchar Packet `" ++ [233]%N ++ runes_of_ascii "` ,	zchar[ 42 ]
-f32a
-    , } options {
-    // packet A { u8 x, }
-    tag=
-    ""\n"" ;
-    }
-")).
-Eval vm_compute in ("<<<M2178>>>" ++ check (runes_of_ascii "options{
-_x
-= true
-} options
-{ o	= /// triple
-false
-    ; chars
-= ""\n"" } root packet	Pad
-/// triple
-// packet A { u8 x, }
-{")).
-Eval vm_compute in ("<<<M1127>>>" ++ check (runes_of_ascii "options  {
-}options
-{rootA =
-zchar[ 255 ];
-} options { Packet
-    // `tick` ""quote"" 'q'
-    =
-    0123456789; a1	= """" }
-")).
-Eval vm_compute in ("<<<M3324>>>" ++ check (runes_of_ascii "root packet matchKey { zchar[ 3 ] // c
-pack @calculatedFrom( ""a	b"" ) `doc` , } options { } MetaData A { int8 msg_type , }")).
-Eval vm_compute in ("<<<M3356>>>" ++ check (runes_of_ascii "root packet matchKey { zchar[ 3 ] pack @calculatedFrom( ""a	b"" ) `doc` , } options { } MetaData A { int8 msg_type , // c
-}")).
-Eval vm_compute in ("<<<M1479>>>" ++ check (runes_of_ascii "
-packet
-    falsey { Header@calculatedFrom(""packet""  ) " ++ [0]%N ++ runes_of_ascii ", char[
-    0123456789 ] packetx
-    , } // `tick` ""quote"" 'q'")).
-Eval vm_compute in ("<<<M4007>>>" ++ check (runes_of_ascii "// top
-root // c0
+u8x")).
+Eval vm_compute in ("<<<M3559>>>" ++ check (runes_of_ascii "options { 
+FixedStringPadFromLeft	= true
+	; }
 
-  packet
-	// c1
-	u128 // c2a
-  // c2b
+    root	packet
 
-	{ 
-    // c3
-	chars
-// c4
-		`it's`,
-	} 
-    // c7
-")).
-Eval vm_compute in ("<<<M4516>>>" ++ check (runes_of_ascii "packet metadata {
-    // c
-    Logon {
-        A `" ++ [28040; 24687; 31867; 22411]%N ++ runes_of_ascii "`,
-        tag o,
-    },
-    zchar len `// not a comment`,
-}")).
-Eval vm_compute in ("<<<M4459>>>" ++ check (runes_of_ascii "  packet
-A{  match
-
-    k
-    as n{
-[ 
-""a"" , ""bb"" ,
-""c c""
-    ,  ""d""
-
+P{
+	char[4]
+	z
     ,
-""e""  ]
-:
-B
-	2
-: C
-}
-	,
-}
-")).
-Eval vm_compute in ("<<<M3003>>>" ++ check (runes_of_ascii "packet A {
-    u16 len @lengthOf(body) `a
-b`,
-    u32 crc @calculatedFrom(""CRC32"") `a
-b`,
-    string body,
-}")).
-Eval vm_compute in ("<<<M883>>>" ++ check (runes_of_ascii "options /// triple
-{
-    asx ='\x00' ;
     }
-    //	t
-    options
-{ pack =""CRC32""
-;} root packet
-f32a { }")).
-Eval vm_compute in ("<<<M2972>>>" ++ check (runes_of_ascii "packet A {
-  match k as n {
-    [""a"", ""bb"", 007, ""d"", ""e"", 66, ""g"", ""h"", 9, ""j""] : B,
-    2 : C
-  },
-}")).
-Eval vm_compute in ("<<<M3040>>>" ++ check (runes_of_ascii "packet A {
-    Inner {
-        u8 x `
-x`,
-        Deep {
-            u8 y `
-x`,
-        },
-    },
-}")).
-Eval vm_compute in ("<<<M2939>>>" ++ check (runes_of_ascii "packet A {
-  match k as n {
-    [""a"", ""bb"", ""c c"", ""d"", ""e"", ""f"", ""g"", ""h""] : B
-    2 : C
-  },
-}")).
-Eval vm_compute in ("<<<M3752>>>" ++ check (runes_of_ascii "packet repeatCount {
-}
-
-root packet uint8x {
-    @rightPad('\x00')
-    options1 As,// a // b
-}")).
-Eval vm_compute in ("<<<M2267>>>" ++ check (runes_of_ascii "options
-{ } options { BodyLength= u16 Header= f64 ; u128 u128 =
-    true
-    ; } // a // b")).
-Eval vm_compute in ("<<<M866>>>" ++ check (runes_of_ascii "
-root packet len
-    {char[  1] Foo
-    @calculatedFrom( ""abc""
-),// `tick` ""quote"" 'q'
-}
 ")).
-Eval vm_compute in ("<<<M3292>>>" ++ check (runes_of_ascii "MetaData float { float64 charz `
-` , } root packet chars {
-// c
-@rightPad ( '0' ) Foo , }")).
-Eval vm_compute in ("<<<M3503>>>" ++ check (runes_of_ascii "packet chars { } packet MetaDataX { @tag( 42 ) // c
-i16 string_ , repeat x `say ""hi""` , }")).
-Eval vm_compute in ("<<<M2294>>>" ++ check (runes_of_ascii "options
-{ } options { BodyLength= @ u16 Header= f64 ; u128 =
-    true
-    ; } // a // b")).
-Eval vm_compute in ("<<<M3212>>>" ++ check (runes_of_ascii "
-// c
-packet metadata { Logon { A `" ++ [28040; 24687; 31867; 22411]%N ++ runes_of_ascii "` , tag o , } , zchar len `// not a comment` , }")).
-Eval vm_compute in ("<<<M2913>>>" ++ check (runes_of_ascii "packet A {
+Eval vm_compute in ("<<<M4251>>>" ++ check (runes_of_ascii "packet chars {
+    i8 body @lengthOf(crc),
+    repeat char[] zchar,
+    body `
+        `,
+}")).
+Eval vm_compute in ("<<<M2958>>>" ++ check (runes_of_ascii "packet A {
   match k as n {
-    [""a"", ""bb"", ""c c"", ""d"", ""e"", ""f""] : B
+    [1, 22, ""c c"", 4, 5, ""f"", 7, 8, ""i""] : B
     2 : C
   },
 }")).
-Eval vm_compute in ("<<<M3242>>>" ++ check (runes_of_ascii "packet metadata { Logon { A `" ++ [28040; 24687; 31867; 22411]%N ++ runes_of_ascii "` , tag o , } , zchar len
+Eval vm_compute in ("<<<M3298>>>" ++ check (runes_of_ascii "MetaData float { float64 charz `
+` , } root packet chars { @rightPad ( '0'
 // c
-`// not a comment` , }")).
-Eval vm_compute in ("<<<M3430>>>" ++ check (runes_of_ascii "packet
-// c
-o { repeat Logon uint8x , } options { asx = zchar[ 3 ] stringy = '\x00' }")).
-Eval vm_compute in ("<<<M3462>>>" ++ check (runes_of_ascii "packet o { repeat Logon uint8x , } options { asx = zchar[ 3 ] stringy =
-// c
-'\x00' }")).
-Eval vm_compute in ("<<<M2921>>>" ++ check (runes_of_ascii "packet A {
+) Foo , }")).
+Eval vm_compute in ("<<<M3509>>>" ++ check (runes_of_ascii "packet chars { } packet MetaDataX { @tag( 42 ) i16 string_ , // c
+repeat x `say ""hi""` , }")).
+Eval vm_compute in ("<<<M2941>>>" ++ check (runes_of_ascii "packet A {
   match k as n {
-    [""a"", ""bb"", 007, ""d"", ""e"", 66] : B
+    [1, ""bb"", 007, ""d"", 5, ""f"", 7, ""h""] : B
     2 : C
   },
 }")).
-Eval vm_compute in ("<<<M3407>>>" ++ check (runes_of_ascii "MetaData body { i64 pack `it's` ,
+Eval vm_compute in ("<<<M129>>>" ++ check (runes_of_ascii "MetaData
+    charz { } packet
+    // " ++ [27880; 37322]%N ++ runes_of_ascii "
+    matchKey {
+    a1
+    repeatCount
+    , }
+")).
+Eval vm_compute in ("<<<M3217>>>" ++ check (runes_of_ascii "packet metadata { // c
+Logon { A `" ++ [28040; 24687; 31867; 22411]%N ++ runes_of_ascii "` , tag o , } , zchar len `// not a comment` , }")).
+Eval vm_compute in ("<<<M3466>>>" ++ check (runes_of_ascii "packet o { repeat Logon uint8x , } options { asx = zchar[ 3 ] stringy = '\x00' }
 // c
-} packet stringy { int16 calculatedFrom , }")).
+")).
+Eval vm_compute in ("<<<M3440>>>" ++ check (runes_of_ascii "packet o { repeat Logon uint8x
+// c
+, } options { asx = zchar[ 3 ] stringy = '\x00' }")).
+Eval vm_compute in ("<<<M2920>>>" ++ check (runes_of_ascii "packet A {
+  match k as n {
+    [""a"", ""bb"", 007, ""d"", ""e"", 66] : B,
+    2 : C
+  },
+}")).
+Eval vm_compute in ("<<<M369>>>" ++ check (runes_of_ascii "MetaData repeatCount
+    {
+    } options { // packet A { u8 x, }
+}
+// @lengthOf(
+")).
+Eval vm_compute in ("<<<M3415>>>" ++ check (runes_of_ascii "MetaData body { i64 pack `it's` , } packet stringy {
+// c
+int16 calculatedFrom , }")).
 Eval vm_compute in ("<<<M684>>>" ++ check (runes_of_ascii "packet u128{ zchar[ 00 ]
 // a // b
 // packet A { u8 x, }
@@ -2680,136 +2493,126 @@ f32a
 //
 , }
 ")).
-Eval vm_compute in ("<<<M2309>>>" ++ check (runes_of_ascii "options
-{ } options { " ++ [21517; 23383]%N ++ runes_of_ascii "= u16 Header= f64 ; u128 =
-    true
-    ; } // a // b")).
-Eval vm_compute in ("<<<M1231>>>" ++ check (runes_of_ascii "options	{zchar = 10 As
-= u32// packet A { u8 x, }
-; A= ""a\\"" // " ++ [128512]%N ++ runes_of_ascii " emoji
-}
-")).
-Eval vm_compute in ("<<<M4211>>>" ++ check (runes_of_ascii "MetaData/// triple
+Eval vm_compute in ("<<<M4490>>>" ++ check (runes_of_ascii "
 
-float	{
-f64
+  packet// c
+
+  x
+
+{
+	@rightPad
+
+(
+    )
+	repeat  roots
+    Logon `doc` , } ")).
+Eval vm_compute in ("<<<M566>>>" ++ check (runes_of_ascii "packet
+    o{  stringy
+@calculatedFrom( ""a	b"" // packet A { u8 x, }
+),
+}")).
+Eval vm_compute in ("<<<M3044>>>" ++ check (runes_of_ascii "packet A {
+    B b `tab
+	x`,
+    B `tab
+	x`,
+    repeat B bs `tab
+	x`,
+}")).
+Eval vm_compute in ("<<<M231>>>" ++ check (runes_of_ascii "MetaData/// triple
+float {	f64
     // trailing space 
-u8x
-	`
-`,
-	}
-
-")).
-Eval vm_compute in ("<<<M3567>>>" ++ check (runes_of_ascii "root packet P {
-    u16 a,
-    u32 Sum @calculatedFrom(""CR\
-C32""),
-}
-")).
-Eval vm_compute in ("<<<M2871>>>" ++ check (runes_of_ascii "packet A {
+    u8x
+`
+` ,	}")).
+Eval vm_compute in ("<<<M3695>>>" ++ check (runes_of_ascii "packet x {
+    @rightPad()
+    // c
+    repeat roots Logon `doc`,
+}")).
+Eval vm_compute in ("<<<M2738>>>" ++ check (runes_of_ascii "i16 0 char[ repeat zchar[ i64 : repeat `tab	here` as int8 { root")).
+Eval vm_compute in ("<<<M2867>>>" ++ check (runes_of_ascii "packet A {
   match k as n {
-    [1, 22, 007] : B,
+    [1, ""bb""] : B
     2 : C
   },
 }")).
-Eval vm_compute in ("<<<M4407>>>" ++ check (runes_of_ascii "
+Eval vm_compute in ("<<<M2896>>>" ++ check (runes_of_ascii "packet A { Inner { match k as n { [1,22,007,4] : B, }, }, }")).
+Eval vm_compute in ("<<<M3374>>>" ++ check (runes_of_ascii "packet x { @rightPad (
 // c
-	packet  x{@rightPad(  )repeat roots 
-Logon
-
-`doc`
-,	}
-")).
-Eval vm_compute in ("<<<M3716>>>" ++ check (runes_of_ascii "
-
-  root
-packet 	 // c
-	  u128 {
-
-    chars
-`it's`  , }
-
-")).
-Eval vm_compute in ("<<<M3571>>>" ++ check (runes_of_ascii "root packet P {
-    repeat string ss,
-    repeat u16 ns,
-}
-")).
-Eval vm_compute in ("<<<M3382>>>" ++ check (runes_of_ascii "packet x { @rightPad ( ) repeat roots Logon
+) repeat roots Logon `doc` , }")).
+Eval vm_compute in ("<<<M1899>>>" ++ check (runes_of_ascii "MetaData
+    u { }  options {
 // c
-`doc` , }")).
-Eval vm_compute in ("<<<M805>>>" ++ check (runes_of_ascii "options { Packet =// @lengthOf(
-""\n"";// c
-}
-// " ++ [128512]%N ++ runes_of_ascii " emoji
-")).
-Eval vm_compute in ("<<<M2824>>>" ++ check (runes_of_ascii "zchar[ i64 true i32 options MetaData @tag( as true [")).
-Eval vm_compute in ("<<<M3802>>>" ++ check (runes_of_ascii "MetaData	M {
+// @lengthOf(
+float =")).
+Eval vm_compute in ("<<<M2270>>>" ++ check (runes_of_ascii "options
+{ } options { BodyLength= u16 Header= f64 ;")).
+Eval vm_compute in ("<<<M4577>>>" ++ check (runes_of_ascii "
 
-    } // c
-      packet
+  packet  /// triple
+  packetx
 
-A  { 
-} ")).
-Eval vm_compute in ("<<<M2260>>>" ++ check (runes_of_ascii "options
-{ } options { BodyLength= u16 Header=")).
-Eval vm_compute in ("<<<M784>>>" ++ check (runes_of_ascii "
-root packet float{repeat charz falsey  , }
+    {}// " ++ [27880; 37322]%N ++ runes_of_ascii "
 ")).
-Eval vm_compute in ("<<<M2785>>>" ++ check (runes_of_ascii "= ] i64 f32 @calculatedFrom( ; match false")).
-Eval vm_compute in ("<<<M3191>>>" ++ check (runes_of_ascii "root packet // c
-u128 { chars `it's` , }")).
-Eval vm_compute in ("<<<M2250>>>" ++ check (runes_of_ascii "options
-{ } options { BodyLength= u16")).
-Eval vm_compute in ("<<<M2749>>>" ++ check (runes_of_ascii "7n9Pa7n1_7](hItIzEPN(=6lB6B^*NjpYE6g")).
-Eval vm_compute in ("<<<M4009>>>" ++ check (runes_of_ascii "root packet stringy {
-    _x Pad,
+Eval vm_compute in ("<<<M1034>>>" ++ check (runes_of_ascii "MetaData charz {calculatedFrom leftPad
+    ,}
+")).
+Eval vm_compute in ("<<<M1244>>>" ++ check (runes_of_ascii "MetaData msg_type { zchar[ 65535 ] pack
+,}
+")).
+Eval vm_compute in ("<<<M4545>>>" ++ check (runes_of_ascii "root packet A {
+    u8 x `a
+        b`,
 }")).
-Eval vm_compute in ("<<<M2240>>>" ++ check (runes_of_ascii "options
-{ } options { BodyLength")).
-Eval vm_compute in ("<<<M3568>>>" ++ check (runes_of_ascii "root packet P {
-    string s,
-}
-")).
-Eval vm_compute in ("<<<M2817>>>" ++ check ([65533; 65533; 65533]%N ++ runes_of_ascii "Et" ++ [65533]%N ++ runes_of_ascii "b" ++ [65533]%N ++ runes_of_ascii "=" ++ [4; 15]%N ++ runes_of_ascii "@" ++ [65533; 65533]%N ++ runes_of_ascii "yr" ++ [65533]%N ++ runes_of_ascii "_	kM" ++ [1260; 65533; 23]%N ++ runes_of_ascii "j_" ++ [65533; 65533; 8; 65533]%N)).
-Eval vm_compute in ("<<<M4067>>>" ++ check (runes_of_ascii "  root
-packet
-	chars 
-{  }
+Eval vm_compute in ("<<<M3196>>>" ++ check (runes_of_ascii "root packet u128 {
+// c
+chars `it's` , }")).
+Eval vm_compute in ("<<<M2619>>>" ++ check (runes_of_ascii "packet A { match k as n { '0' : B }, }")).
+Eval vm_compute in ("<<<M3019>>>" ++ check (runes_of_ascii "packet A {
+    u8 x `a
+    b
+  c`,
+}")).
+Eval vm_compute in ("<<<M437>>>" ++ check (runes_of_ascii "packet // a // b
+int{ } // a // b")).
+Eval vm_compute in ("<<<M2774>>>" ++ check (runes_of_ascii "= @calculatedFrom( i16 true char[")).
+Eval vm_compute in ("<<<M773>>>" ++ check (runes_of_ascii "MetaData T{
+int64	i8i8 `` , }
 
 ")).
-Eval vm_compute in ("<<<M3031>>>" ++ check (runes_of_ascii "packet A {
-    u8 x `x
-`,
+Eval vm_compute in ("<<<M3087>>>" ++ check (runes_of_ascii "packet A {
+ u8 x `d" ++ [8192]%N ++ runes_of_ascii "`, // c" ++ [8192]%N ++ runes_of_ascii "
 }")).
-Eval vm_compute in ("<<<M2598>>>" ++ check (runes_of_ascii "packet A { B { u8 x, }, }")).
-Eval vm_compute in ("<<<M3984>>>" ++ check (runes_of_ascii "packet A {
-}// a// b// c")).
-Eval vm_compute in ("<<<M912>>>" ++ check (runes_of_ascii "
-packet rootA
-    {
+Eval vm_compute in ("<<<M1700>>>" ++ check (runes_of_ascii "options { trueish = ""`tick`""")).
+Eval vm_compute in ("<<<M3149>>>" ++ check (runes_of_ascii "packet A {
+}// a// b// c
+")).
+Eval vm_compute in ("<<<M2622>>>" ++ check (runes_of_ascii "packet A { @tag() u8 x, }")).
+Eval vm_compute in ("<<<M2668>>>" ++ check (runes_of_ascii "options { options = 1; }")).
+Eval vm_compute in ("<<<M3735>>>" ++ check (runes_of_ascii "// a
+// b
+packet A {
 }")).
-Eval vm_compute in ("<<<M3997>>>" ++ check (runes_of_ascii "root packet pack {
-}")).
-Eval vm_compute in ("<<<M3472>>>" ++ check (runes_of_ascii "MetaData // c
-o { }")).
-Eval vm_compute in ("<<<M3080>>>" ++ check (runes_of_ascii "packet A {
+Eval vm_compute in ("<<<M2667>>>" ++ check (runes_of_ascii "options { a = [1]; }")).
+Eval vm_compute in ("<<<M2771>>>" ++ check (runes_of_ascii "W" ++ [23; 65533]%N ++ runes_of_ascii "-" ++ [65533; 65533; 65533]%N ++ runes_of_ascii ">Dv" ++ [65533; 65533; 65533]%N ++ runes_of_ascii "~>Z" ++ [65533; 65533; 65533]%N)).
+Eval vm_compute in ("<<<M3075>>>" ++ check (runes_of_ascii "packet A {
 }
-// c" ++ [5760]%N)).
-Eval vm_compute in ("<<<M860>>>" ++ check (runes_of_ascii "packet zchar
-{ }")).
-Eval vm_compute in ("<<<M3872>>>" ++ check (runes_of_ascii "MetaData
-u 
-{ } ")).
+// c" ++ [133]%N)).
+Eval vm_compute in ("<<<M194>>>" ++ check (runes_of_ascii "root
+packet u{}
+")).
+Eval vm_compute in ("<<<M4019>>>" ++ check (runes_of_ascii "packet falsey {
+}")).
 Eval vm_compute in ("<<<M536>>>" ++ check (runes_of_ascii "packet _x	{ }
 ")).
-Eval vm_compute in ("<<<M2763>>>" ++ check ([65533; 65533]%N ++ runes_of_ascii "xu7H\" ++ [65533; 65533; 65533]%N ++ runes_of_ascii "}#")).
-Eval vm_compute in ("<<<M1685>>>" ++ check (runes_of_ascii "options {")).
-Eval vm_compute in ("<<<M2429>>>" ++ check (runes_of_ascii "char[]x")).
-Eval vm_compute in ("<<<M2722>>>" ++ check (runes_of_ascii "w""Bn;m")).
-Eval vm_compute in ("<<<M3069>>>" ++ check (runes_of_ascii "// c" ++ [160]%N)).
-Eval vm_compute in ("<<<M2523>>>" ++ check (runes_of_ascii "`
-`")).
-Eval vm_compute in ("<<<M2529>>>" ++ check (runes_of_ascii "1 2")).
-Eval vm_compute in ("<<<M2531>>>" ++ check (runes_of_ascii "-1")).
-Eval vm_compute in ("<<<M2852>>>" ++ check ([31]%N)).
+Eval vm_compute in ("<<<M2559>>>" ++ check (runes_of_ascii """" ++ [233]%N ++ runes_of_ascii """ `" ++ [21517]%N ++ runes_of_ascii "` // " ++ [252]%N)).
+Eval vm_compute in ("<<<M2482>>>" ++ check (runes_of_ascii "@leftPad(")).
+Eval vm_compute in ("<<<M2462>>>" ++ check (runes_of_ascii "packets")).
+Eval vm_compute in ("<<<M2338>>>" ++ check (runes_of_ascii "// c
+")).
+Eval vm_compute in ("<<<M3109>>>" ++ check (runes_of_ascii "// c" ++ [8287]%N)).
+Eval vm_compute in ("<<<M2682>>>" ++ check (runes_of_ascii "
+	 ")).
+Eval vm_compute in ("<<<M2552>>>" ++ check (runes_of_ascii "a" ++ [8232]%N ++ runes_of_ascii "b")).
+Eval vm_compute in ("<<<M2826>>>" ++ check (runes_of_ascii "Yn")).
